@@ -1,9 +1,1092 @@
-(* Lemmas about the assert_constraints models of Model/Asserts.v (property C12). *)
+(* Lemmas about the assert_constraints models of Model/Asserts.v (property C12).
+
+   For every layer kind: the list of COVERED inequality instances is given as a
+   type of instances ([lat_ineq], ...) with a membership predicate [covered]
+   quantifying over ALL valid index vectors / units / pairs (independent of how
+   the assert slices the kernel) and a [slack] (>= 0 means satisfied; the
+   violation of an instance is  - slack).  Then
+     sound:     covered q -> slack q < - eps -> assert = false
+     complete:  0 <= eps -> (forall covered q, - eps <= slack q) -> assert = true. *)
 From TFL Require Export Model.Asserts Proofs.LatticeSpecFacts.
+From TFL Require Import Proofs.LatticeMono.
 Open Scope Q_scope.
 
+(* ------------------------------------------------------------------ *)
+(* reductions                                                           *)
+(* ------------------------------------------------------------------ *)
+Lemma rmin_ge_inv l lo : rmin_ge l lo = true -> forall x, In x l -> lo <= x.
+Proof. unfold rmin_ge. rewrite qle_true. intros H x Hx. pose proof (qminl_le l x Hx). lra. Qed.
+Lemma rmin_ge_intro l lo : (l = [] -> lo <= 0) -> (forall x, In x l -> lo <= x) -> rmin_ge l lo = true.
+Proof. unfold rmin_ge. rewrite qle_true. intros Hn H. destruct l as [|y l].
+  - cbn. apply Hn. reflexivity.
+  - apply qminl_glb. discriminate. exact H. Qed.
+Lemma rmax_le_inv l hi : rmax_le l hi = true -> forall x, In x l -> x <= hi.
+Proof. unfold rmax_le. rewrite qle_true. intros H x Hx. pose proof (qmaxl_ge l x Hx). lra. Qed.
+Lemma rmax_le_intro l hi : (l = [] -> 0 <= hi) -> (forall x, In x l -> x <= hi) -> rmax_le l hi = true.
+Proof. unfold rmax_le. rewrite qle_true. intros Hn H. destruct l as [|y l].
+  - cbn. apply Hn. reflexivity.
+  - apply qmaxl_lub. discriminate. exact H. Qed.
+
+Lemma bool_false_of (b : bool) : (b = true -> False) -> b = false.
+Proof. destruct b; intros H; [exfalso; apply H; reflexivity|reflexivity]. Qed.
+
+(* ------------------------------------------------------------------ *)
+(* slices                                                               *)
+(* ------------------------------------------------------------------ *)
+Definition pos_shape (sh : list nat) : Prop := forall s, In s sh -> (1 <= s)%nat.
+Lemma pos_shape_nth sh d : pos_shape sh -> (d < length sh)%nat -> (1 <= nth d sh 0)%nat.
+Proof. intros H Hd. apply H. apply nth_In. exact Hd. Qed.
+
+Lemma slices_ge_inv sh keep eps g :
+  (forall b, valid sh b -> g (zero_at keep b) == g b) ->
+  slices_ge sh keep eps g = true -> forall b, valid sh b -> - eps <= g b.
+Proof. intros Hg H b Hv. rewrite <- (Hg b Hv). apply (rmin_ge_inv _ _ H). apply in_map. apply behind_proj. exact Hv. Qed.
+
+Lemma slices_ge_intro sh keep eps g : pos_shape sh -> 0 <= eps ->
+  (forall b, valid sh b -> - eps <= g b) -> slices_ge sh keep eps g = true.
+Proof. intros Hp He H. apply rmin_ge_intro. intros _; lra.
+  intros x Hx. apply in_map_iff in Hx. destruct Hx as [b [<- Hb]]. apply H.
+  apply (behind_valid sh keep); [|exact Hb]. intros d _ Hd. apply pos_shape_nth; assumption. Qed.
+
+Lemma pairs_all_iff a b f : pairs_all a b f = true <-> forall i j, (i < a)%nat -> (j < b)%nat -> f i j = true.
+Proof. unfold pairs_all. rewrite forallb_forall. split.
+  - intros H i j Hi Hj. specialize (H i ltac:(apply in_seq; lia)). rewrite forallb_forall in H.
+    apply H. apply in_seq; lia.
+  - intros H i Hi. apply in_seq in Hi. apply forallb_forall. intros j Hj. apply in_seq in Hj. apply H; lia. Qed.
+
+Lemma upd_zero_at1 b d k : upd (zero_at [d] b) d k = upd b d k.
+Proof. cbn. apply upd_upd. Qed.
+Lemma at2_zero_at2 b p q i j : p <> q -> at2 (zero_at [p; q] b) p q i j = at2 b p q i j.
+Proof. intros Hne. cbn. unfold at2.
+  rewrite (upd_comm (upd b p 0%nat) q p 0%nat i) by auto. rewrite upd_upd. rewrite upd_upd. reflexivity. Qed.
+
+Lemma slices_ge_inv' sh keep eps g : slices_ge sh keep eps g = true ->
+  (forall b, valid sh b -> g (zero_at keep b) == g b) -> forall b, valid sh b -> - eps <= g b.
+Proof. intros H Hg. apply (slices_ge_inv sh keep); assumption. Qed.
+(* from  H : slices_ge sh [p; q] eps g = true  to  G : - eps <= g b  (g written with at2 _ p q) *)
+Ltac slinv H b Hv G :=
+  pose proof (slices_ge_inv' _ _ _ _ H) as G; cbv beta in G;
+  lapply G; [clear G; intros G; specialize (G b Hv)
+            |intros ? _; rewrite !at2_zero_at2 by assumption; reflexivity].
+
+(* ------------------------------------------------------------------ *)
+(* Lattice: covered inequality instances                                *)
+(* ------------------------------------------------------------------ *)
+Inductive lat_ineq :=
+| IMono (d : nat) (x : idx)                       (* x -> x + e_d along a monotone dimension *)
+| IEdge (t : trust) (b : idx) (i j : nat)         (* Edgeworth square (i, j) at position b *)
+| ITrapL (t : trust) (b : idx) (j : nat)          (* trapezoid, lowest main index *)
+| ITrapR (t : trust) (b : idx) (j : nat)          (* trapezoid, highest main index *)
+| IMdomD (pq : nat * nat) (b : idx) (i j : nat)   (* monotonic dominance, dominant edge vs midpoint *)
+| IMdomW (pq : nat * nat) (b : idx) (i j : nat)   (* monotonic dominance, midpoint vs weak edge *)
+| IRdom (pq : nat * nat) (b : idx) (i j : nat)    (* range dominance: weak range at i vs dominant range at j *)
+| IJmonoL (pq : nat * nat) (b : idx) (i j : nat)  (* joint monotonicity, lower triangle *)
+| IJmonoU (pq : nat * nat) (b : idx) (i j : nat)  (* joint monotonicity, upper triangle *)
+| ILower (x : idx)
+| IUpper (x : idx).
+
+(* the sign convention of Proofs/LatticeSpec.v: direction > 0 keeps x, else - x *)
+Definition tsign (dir : Z) (x : Q) : Q := if (0 <? dir)%Z then x else - x.
+
+Definition slack (c : la_cfg) (W : tens) (q : lat_ineq) : Q :=
+  let sh := a_shape c in
+  match q with
+  | IMono d x => W (upd x d (S (nth d x 0%nat))) - W x
+  | IEdge (m, cd, dir) b i j => tsign dir (- esq W m cd i j b)
+  | ITrapL (m, cd, dir) b j => tsign dir (W (at2 b m cd 0%nat j) - W (at2 b m cd 0%nat (S j)))
+  | ITrapR (m, cd, dir) b j =>
+      let mx := (nth m sh 0%nat - 1)%nat in tsign dir (W (at2 b m cd mx (S j)) - W (at2 b m cd mx j))
+  | IMdomD (p, q) b i j => W (at2 b p q (S i) j) - (W (at2 b p q (S i) (S j)) + W (at2 b p q i j)) * (1#2)
+  | IMdomW (p, q) b i j => (W (at2 b p q (S i) (S j)) + W (at2 b p q i j)) * (1#2) - W (at2 b p q i (S j))
+  | IRdom (p, q) b i j =>
+      let dmax := (nth p sh 0%nat - 1)%nat in let wmax := (nth q sh 0%nat - 1)%nat in
+      (W (at2 b p q dmax j) - W (at2 b p q 0%nat j)) - (W (at2 b p q i wmax) - W (at2 b p q i 0%nat))
+  | IJmonoL (p, q) b i j => W (at2 b p q (S i) (S j)) - (W (at2 b p q (S i) j) + W (at2 b p q i (S j))) * (1#2)
+  | IJmonoU (p, q) b i j => (W (at2 b p q (S i) j) + W (at2 b p q i (S j))) * (1#2) - W (at2 b p q i j)
+  | ILower x => match a_min c with Some lo => W x - lo | None => 0 end
+  | IUpper x => match a_max c with Some hi => hi - W x | None => 0 end
+  end.
+
+Definition covered (c : la_cfg) (q : lat_ineq) : Prop :=
+  let sh := a_shape c in
+  match q with
+  | IMono d x => (d < length (a_monos c))%nat /\ nth d (a_monos c) 0%Z = 1%Z /\ valid sh x /\
+                 (S (nth d x 0) < nth d sh 0)%nat
+  | IEdge t b i j => In t (a_edge c) /\ valid sh b /\
+                     (S i < nth (fst (fst t)) sh 0)%nat /\ (S j < nth (snd (fst t)) sh 0)%nat
+  | ITrapL t b j | ITrapR t b j => In t (a_trap c) /\ valid sh b /\ (S j < nth (snd (fst t)) sh 0)%nat
+  | IMdomD pq b i j | IMdomW pq b i j =>
+      In pq (a_mdom c) /\ valid sh b /\ (S i < nth (fst pq) sh 0)%nat /\ (S j < nth (snd pq) sh 0)%nat
+  | IRdom pq b i j => In pq (a_rdom c) /\ valid sh b /\ (i < nth (fst pq) sh 0)%nat /\ (j < nth (snd pq) sh 0)%nat
+  | IJmonoL pq b i j | IJmonoU pq b i j =>
+      In pq (a_jmono c) /\ valid sh b /\ (S i < nth (fst pq) sh 0)%nat /\ (S j < nth (snd pq) sh 0)%nat
+  | ILower x => a_min c <> None /\ valid sh x
+  | IUpper x => a_max c <> None /\ valid sh x
+  end.
+
+(* what verify_hyperparameters guarantees (the part the asserts rely on) *)
+Definition la_ok (c : la_cfg) : Prop :=
+  pos_shape (a_shape c) /\
+  (length (a_monos c) <= length (a_sizes c))%nat /\
+  (forall m cd dir, In (m, cd, dir) (a_edge c ++ a_trap c) -> m <> cd /\ (dir = 1 \/ dir = -1)%Z) /\
+  (forall p q, In (p, q) (a_mdom c ++ a_rdom c ++ a_jmono c) -> p <> q).
+
+(* ---- monotonicity ---- *)
+Lemma assert_mono_inv sh monos eps W : assert_mono sh monos eps W = true ->
+  forall d x, (d < length monos)%nat -> nth d monos 0%Z = 1%Z -> valid sh x -> (S (nth d x 0) < nth d sh 0)%nat ->
+  - eps <= W (upd x d (S (nth d x 0%nat))) - W x.
+Proof. unfold assert_mono. rewrite forallb_forall. intros H d x Hd Hm Hv Hs.
+  specialize (H d ltac:(apply in_seq; lia)). rewrite Hm in H. change ((1 =? 1)%Z) with true in H. cbv iota in H.
+  rewrite forallb_forall in H. specialize (H (nth d x 0%nat) ltac:(apply in_seq; lia)).
+  assert (Hg : forall b, valid sh b ->
+    (fun b => W (upd b d (S (nth d x 0%nat))) - W (upd b d (nth d x 0%nat))) (zero_at [d] b) ==
+    (fun b => W (upd b d (S (nth d x 0%nat))) - W (upd b d (nth d x 0%nat))) b).
+  { intros b _. cbv beta. rewrite !upd_zero_at1. reflexivity. }
+  pose proof (slices_ge_inv sh [d] eps _ Hg H x Hv) as H1. cbv beta in H1. rewrite (upd_self x d) in H1. exact H1. Qed.
+
+Lemma assert_mono_intro sh monos eps W : pos_shape sh -> 0 <= eps ->
+  (forall d x, (d < length monos)%nat -> nth d monos 0%Z = 1%Z -> valid sh x -> (S (nth d x 0) < nth d sh 0)%nat ->
+     - eps <= W (upd x d (S (nth d x 0%nat))) - W x) ->
+  assert_mono sh monos eps W = true.
+Proof. intros Hp He H. unfold assert_mono. apply forallb_forall. intros d Hd. apply in_seq in Hd.
+  destruct (nth d monos 0 =? 1)%Z eqn:E; [|reflexivity]. apply Z.eqb_eq in E.
+  apply forallb_forall. intros j Hj. apply in_seq in Hj.
+  apply slices_ge_intro; auto. intros b Hv.
+  assert (Hdl : (d < length sh)%nat).
+  { destruct (Nat.ltb_spec d (length sh)); [assumption|]. rewrite (nth_overflow sh) in Hj by assumption. lia. }
+  assert (Hv' : valid sh (upd b d j)) by (apply upd_valid; [exact Hv|lia]).
+  pose proof (H d (upd b d j) ltac:(lia) E Hv') as H1.
+  rewrite nth_upd_same in H1 by (rewrite (valid_length sh b Hv); exact Hdl). rewrite upd_upd in H1. apply H1. lia. Qed.
+
+(* ---- sign of a trust direction ---- *)
+Lemma dir_mul dir x : (dir = 1 \/ dir = -1)%Z -> inject_Z dir * x == tsign dir x.
+Proof. intros [-> | ->]; unfold tsign.
+  - change (0 <? 1)%Z with true. change (inject_Z 1) with 1. cbv iota. lra.
+  - change (0 <? -1)%Z with false. change (inject_Z (-1)) with (-1#1). cbv iota. lra. Qed.
+
+(* ---- Edgeworth ---- *)
+Lemma assert_edge_inv sh eps W m cd dir : m <> cd -> (dir = 1 \/ dir = -1)%Z ->
+  assert_edge_one sh eps W (m, cd, dir) = true ->
+  forall b i j, valid sh b -> (S i < nth m sh 0)%nat -> (S j < nth cd sh 0)%nat ->
+  - eps <= tsign dir (- esq W m cd i j b).
+Proof. intros Hne Hdir H b i j Hv Hi Hj. unfold assert_edge_one in H. rewrite pairs_all_iff in H.
+  specialize (H i j ltac:(lia) ltac:(lia)).
+  slinv H b Hv H1.
+  rewrite dir_mul in H1 by assumption. unfold tsign, esq in *. destruct (0 <? dir)%Z; lra. Qed.
+
+Lemma assert_edge_intro sh eps W m cd dir : pos_shape sh -> 0 <= eps -> (dir = 1 \/ dir = -1)%Z ->
+  (forall b i j, valid sh b -> (S i < nth m sh 0)%nat -> (S j < nth cd sh 0)%nat ->
+     - eps <= tsign dir (- esq W m cd i j b)) ->
+  assert_edge_one sh eps W (m, cd, dir) = true.
+Proof. intros Hp He Hdir H. unfold assert_edge_one. apply pairs_all_iff. intros i j Hi Hj.
+  apply slices_ge_intro; auto. intros b Hv. specialize (H b i j Hv ltac:(lia) ltac:(lia)).
+  rewrite dir_mul by assumption. unfold tsign, esq in *. destruct (0 <? dir)%Z; lra. Qed.
+
+(* ---- trapezoid ---- *)
+Lemma assert_trap_inv sh eps W m cd dir : m <> cd -> (dir = 1 \/ dir = -1)%Z ->
+  assert_trap_one sh eps W (m, cd, dir) = true ->
+  forall b j, valid sh b -> (S j < nth cd sh 0)%nat ->
+  - eps <= tsign dir (W (at2 b m cd 0%nat j) - W (at2 b m cd 0%nat (S j))) /\
+  - eps <= tsign dir (W (at2 b m cd (nth m sh 0%nat - 1)%nat (S j)) - W (at2 b m cd (nth m sh 0%nat - 1)%nat j)).
+Proof. intros Hne Hdir H b j Hv Hj. unfold assert_trap_one in H. cbv zeta in H. rewrite forallb_forall in H.
+  specialize (H j ltac:(apply in_seq; lia)). apply andb_prop in H. destruct H as [H1 H2].
+  slinv H1 b Hv G1. slinv H2 b Hv G2.
+  rewrite dir_mul in G1, G2 by assumption. split; assumption. Qed.
+
+Lemma assert_trap_intro sh eps W m cd dir : pos_shape sh -> 0 <= eps -> (dir = 1 \/ dir = -1)%Z ->
+  (forall b j, valid sh b -> (S j < nth cd sh 0)%nat ->
+     - eps <= tsign dir (W (at2 b m cd 0%nat j) - W (at2 b m cd 0%nat (S j))) /\
+     - eps <= tsign dir (W (at2 b m cd (nth m sh 0%nat - 1)%nat (S j)) - W (at2 b m cd (nth m sh 0%nat - 1)%nat j))) ->
+  assert_trap_one sh eps W (m, cd, dir) = true.
+Proof. intros Hp He Hdir H. unfold assert_trap_one. cbv zeta. apply forallb_forall. intros j Hj. apply in_seq in Hj.
+  apply andb_true_intro. split; apply slices_ge_intro; auto; intros b Hv;
+    destruct (H b j Hv ltac:(lia)) as [G1 G2]; rewrite dir_mul by assumption; assumption. Qed.
+
+(* ---- monotonic dominance ---- *)
+Lemma assert_mdom_inv sh eps W p q : p <> q -> assert_mdom_one sh eps W (p, q) = true ->
+  forall b i j, valid sh b -> (S i < nth p sh 0)%nat -> (S j < nth q sh 0)%nat ->
+  - eps <= W (at2 b p q (S i) j) - (W (at2 b p q (S i) (S j)) + W (at2 b p q i j)) * (1#2) /\
+  - eps <= (W (at2 b p q (S i) (S j)) + W (at2 b p q i j)) * (1#2) - W (at2 b p q i (S j)).
+Proof. intros Hne H b i j Hv Hi Hj. unfold assert_mdom_one in H. rewrite pairs_all_iff in H.
+  specialize (H i j ltac:(lia) ltac:(lia)). apply andb_prop in H. destruct H as [H1 H2].
+  slinv H1 b Hv G1. slinv H2 b Hv G2. split; assumption. Qed.
+
+Lemma assert_mdom_intro sh eps W p q : pos_shape sh -> 0 <= eps ->
+  (forall b i j, valid sh b -> (S i < nth p sh 0)%nat -> (S j < nth q sh 0)%nat ->
+     - eps <= W (at2 b p q (S i) j) - (W (at2 b p q (S i) (S j)) + W (at2 b p q i j)) * (1#2) /\
+     - eps <= (W (at2 b p q (S i) (S j)) + W (at2 b p q i j)) * (1#2) - W (at2 b p q i (S j))) ->
+  assert_mdom_one sh eps W (p, q) = true.
+Proof. intros Hp He H. unfold assert_mdom_one. apply pairs_all_iff. intros i j Hi Hj.
+  apply andb_true_intro. split; apply slices_ge_intro; auto; intros b Hv;
+    destruct (H b i j Hv ltac:(lia) ltac:(lia)) as [G1 G2]; assumption. Qed.
+
+(* ---- range dominance ---- *)
+Lemma assert_rdom_inv sh eps W p q : p <> q -> assert_rdom_one sh eps W (p, q) = true ->
+  forall b i j, valid sh b -> (i < nth p sh 0)%nat -> (j < nth q sh 0)%nat ->
+  - eps <= (W (at2 b p q (nth p sh 0%nat - 1)%nat j) - W (at2 b p q 0%nat j)) -
+           (W (at2 b p q i (nth q sh 0%nat - 1)%nat) - W (at2 b p q i 0%nat)).
+Proof. intros Hne H b i j Hv Hi Hj. unfold assert_rdom_one in H. cbv zeta in H. rewrite pairs_all_iff in H.
+  specialize (H i j Hi Hj). slinv H b Hv G. exact G. Qed.
+
+Lemma assert_rdom_intro sh eps W p q : pos_shape sh -> 0 <= eps ->
+  (forall b i j, valid sh b -> (i < nth p sh 0)%nat -> (j < nth q sh 0)%nat ->
+     - eps <= (W (at2 b p q (nth p sh 0%nat - 1)%nat j) - W (at2 b p q 0%nat j)) -
+              (W (at2 b p q i (nth q sh 0%nat - 1)%nat) - W (at2 b p q i 0%nat))) ->
+  assert_rdom_one sh eps W (p, q) = true.
+Proof. intros Hp He H. unfold assert_rdom_one. cbv zeta. apply pairs_all_iff. intros i j Hi Hj.
+  apply slices_ge_intro; [assumption|assumption|]. intros b Hv. apply H; assumption. Qed.
+
+(* ---- joint monotonicity ---- *)
+Lemma assert_jmono_inv sh eps W p q : p <> q -> assert_jmono_one sh eps W (p, q) = true ->
+  forall b i j, valid sh b -> (S i < nth p sh 0)%nat -> (S j < nth q sh 0)%nat ->
+  - eps <= W (at2 b p q (S i) (S j)) - (W (at2 b p q (S i) j) + W (at2 b p q i (S j))) * (1#2) /\
+  - eps <= (W (at2 b p q (S i) j) + W (at2 b p q i (S j))) * (1#2) - W (at2 b p q i j).
+Proof. intros Hne H b i j Hv Hi Hj. unfold assert_jmono_one in H. rewrite pairs_all_iff in H.
+  specialize (H i j ltac:(lia) ltac:(lia)). apply andb_prop in H. destruct H as [H1 H2].
+  slinv H1 b Hv G1. slinv H2 b Hv G2. split; assumption. Qed.
+
+Lemma assert_jmono_intro sh eps W p q : pos_shape sh -> 0 <= eps ->
+  (forall b i j, valid sh b -> (S i < nth p sh 0)%nat -> (S j < nth q sh 0)%nat ->
+     - eps <= W (at2 b p q (S i) (S j)) - (W (at2 b p q (S i) j) + W (at2 b p q i (S j))) * (1#2) /\
+     - eps <= (W (at2 b p q (S i) j) + W (at2 b p q i (S j))) * (1#2) - W (at2 b p q i j)) ->
+  assert_jmono_one sh eps W (p, q) = true.
+Proof. intros Hp He H. unfold assert_jmono_one. apply pairs_all_iff. intros i j Hi Hj.
+  apply andb_true_intro. split; apply slices_ge_intro; auto; intros b Hv;
+    destruct (H b i j Hv ltac:(lia) ltac:(lia)) as [G1 G2]; assumption. Qed.
+
+(* ---- bounds ---- *)
+Lemma pos_shape_valid sh : pos_shape sh -> exists x, valid sh x.
+Proof. induction sh as [|s sh IH]; intros Hp. exists []. constructor.
+  destruct IH as [x Hx]. intros s' Hs'. apply Hp. right; assumption.
+  exists (0%nat :: x). constructor; [|assumption]. specialize (Hp s (or_introl eq_refl)). lia. Qed.
+Lemma all_values_nonempty sh (W : tens) : pos_shape sh -> map W (all_idx sh) <> [].
+Proof. intros Hp. destruct (pos_shape_valid sh Hp) as [x Hx]. apply all_idx_valid in Hx.
+  intros E. apply (in_map W) in Hx. rewrite E in Hx. destruct Hx. Qed.
+
+Lemma assert_lower_inv sh eps lo W : assert_lower sh eps (Some lo) W = true -> forall x, valid sh x -> - eps <= W x - lo.
+Proof. cbn. intros H x Hv. pose proof (rmin_ge_inv _ _ H (W x) ltac:(apply in_map; apply all_idx_valid; exact Hv)). lra. Qed.
+Lemma assert_lower_intro sh eps omin W : pos_shape sh ->
+  (forall lo x, omin = Some lo -> valid sh x -> - eps <= W x - lo) -> assert_lower sh eps omin W = true.
+Proof. intros Hp H. destruct omin as [lo|]; [|reflexivity]. cbn. apply rmin_ge_intro.
+  - intros E. exfalso. exact (all_values_nonempty sh W Hp E).
+  - intros v Hv. apply in_map_iff in Hv. destruct Hv as [x [<- Hx]]. apply all_idx_valid in Hx.
+    specialize (H lo x eq_refl Hx). lra. Qed.
+Lemma assert_upper_inv sh eps hi W : assert_upper sh eps (Some hi) W = true -> forall x, valid sh x -> - eps <= hi - W x.
+Proof. cbn. intros H x Hv. pose proof (rmax_le_inv _ _ H (W x) ltac:(apply in_map; apply all_idx_valid; exact Hv)). lra. Qed.
+Lemma assert_upper_intro sh eps omax W : pos_shape sh ->
+  (forall hi x, omax = Some hi -> valid sh x -> - eps <= hi - W x) -> assert_upper sh eps omax W = true.
+Proof. intros Hp H. destruct omax as [hi|]; [|reflexivity]. cbn. apply rmax_le_intro.
+  - intros E. exfalso. exact (all_values_nonempty sh W Hp E).
+  - intros v Hv. apply in_map_iff in Hv. destruct Hv as [x [<- Hx]]. apply all_idx_valid in Hx.
+    specialize (H hi x eq_refl Hx). lra. Qed.
+
+(* ------------------------------------------------------------------ *)
+(* Lattice: the assert passes iff every covered slack is >= -eps        *)
+(* ------------------------------------------------------------------ *)
+Lemma assert_lattice_inv c W eps : la_ok c -> assert_lattice c W eps = true ->
+  forall q, covered c q -> - eps <= slack c W q.
+Proof. intros (Hp & Hl & Htr & Hpq) H q Hq. unfold assert_lattice in H. cbv zeta in H.
+  apply andb_prop in H. destruct H as [H Hup]. apply andb_prop in H. destruct H as [H Hlo].
+  apply andb_prop in H. destruct H as [H Hjm]. apply andb_prop in H. destruct H as [H Hrd].
+  apply andb_prop in H. destruct H as [H Hmd]. apply andb_prop in H. destruct H as [H Htp].
+  apply andb_prop in H. destruct H as [Hmo Hed].
+  rewrite forallb_forall in Hed, Htp, Hmd, Hrd, Hjm.
+  destruct q as [d x|t b i j|t b j|t b j|pq b i j|pq b i j|pq b i j|pq b i j|pq b i j|x|x].
+  - destruct Hq as (Hd & Hm & Hv & Hs). exact (assert_mono_inv _ _ _ _ Hmo d x Hd Hm Hv Hs).
+  - destruct t as [[m cd] dir]. destruct Hq as (Hin & Hv & Hi & Hj). cbn [fst snd] in *.
+    destruct (Htr m cd dir (in_or_app _ _ _ (or_introl Hin))) as [Hne Hdir].
+    exact (assert_edge_inv _ _ _ _ _ _ Hne Hdir (Hed _ Hin) b i j Hv Hi Hj).
+  - destruct t as [[m cd] dir]. destruct Hq as (Hin & Hv & Hj). cbn [fst snd] in *.
+    destruct (Htr m cd dir (in_or_app _ _ _ (or_intror Hin))) as [Hne Hdir].
+    exact (proj1 (assert_trap_inv _ _ _ _ _ _ Hne Hdir (Htp _ Hin) b j Hv Hj)).
+  - destruct t as [[m cd] dir]. destruct Hq as (Hin & Hv & Hj). cbn [fst snd] in *.
+    destruct (Htr m cd dir (in_or_app _ _ _ (or_intror Hin))) as [Hne Hdir].
+    exact (proj2 (assert_trap_inv _ _ _ _ _ _ Hne Hdir (Htp _ Hin) b j Hv Hj)).
+  - destruct pq as [p q]. destruct Hq as (Hin & Hv & Hi & Hj). cbn [fst snd] in *.
+    pose proof (Hpq p q (in_or_app _ _ _ (or_introl Hin))) as Hne.
+    exact (proj1 (assert_mdom_inv _ _ _ _ _ Hne (Hmd _ Hin) b i j Hv Hi Hj)).
+  - destruct pq as [p q]. destruct Hq as (Hin & Hv & Hi & Hj). cbn [fst snd] in *.
+    pose proof (Hpq p q (in_or_app _ _ _ (or_introl Hin))) as Hne.
+    exact (proj2 (assert_mdom_inv _ _ _ _ _ Hne (Hmd _ Hin) b i j Hv Hi Hj)).
+  - destruct pq as [p q]. destruct Hq as (Hin & Hv & Hi & Hj). cbn [fst snd] in *.
+    pose proof (Hpq p q (in_or_app _ _ _ (or_intror (in_or_app _ _ _ (or_introl Hin))))) as Hne.
+    exact (assert_rdom_inv _ _ _ _ _ Hne (Hrd _ Hin) b i j Hv Hi Hj).
+  - destruct pq as [p q]. destruct Hq as (Hin & Hv & Hi & Hj). cbn [fst snd] in *.
+    pose proof (Hpq p q (in_or_app _ _ _ (or_intror (in_or_app _ _ _ (or_intror Hin))))) as Hne.
+    exact (proj1 (assert_jmono_inv _ _ _ _ _ Hne (Hjm _ Hin) b i j Hv Hi Hj)).
+  - destruct pq as [p q]. destruct Hq as (Hin & Hv & Hi & Hj). cbn [fst snd] in *.
+    pose proof (Hpq p q (in_or_app _ _ _ (or_intror (in_or_app _ _ _ (or_intror Hin))))) as Hne.
+    exact (proj2 (assert_jmono_inv _ _ _ _ _ Hne (Hjm _ Hin) b i j Hv Hi Hj)).
+  - destruct Hq as [Hn Hv]. cbn [slack]. destruct (a_min c) as [lo|]; [|congruence].
+    exact (assert_lower_inv _ _ _ _ Hlo x Hv).
+  - destruct Hq as [Hn Hv]. cbn [slack]. destruct (a_max c) as [hi|]; [|congruence].
+    exact (assert_upper_inv _ _ _ _ Hup x Hv). Qed.
+
+Lemma assert_lattice_intro c W eps : la_ok c -> 0 <= eps ->
+  (forall q, covered c q -> - eps <= slack c W q) -> assert_lattice c W eps = true.
+Proof. intros (Hp & Hl & Htr & Hpq) He H. unfold assert_lattice. cbv zeta.
+  apply andb_true_intro; split; [apply andb_true_intro; split; [apply andb_true_intro; split;
+    [apply andb_true_intro; split; [apply andb_true_intro; split; [apply andb_true_intro; split;
+      [apply andb_true_intro; split|]|]|]|]|]|].
+  - apply assert_mono_intro; [assumption|assumption|]. intros d x Hd Hm Hv Hs.
+    exact (H (IMono d x) (conj Hd (conj Hm (conj Hv Hs)))).
+  - apply forallb_forall. intros [[m cd] dir] Hin.
+    destruct (Htr m cd dir (in_or_app _ _ _ (or_introl Hin))) as [Hne Hdir].
+    apply assert_edge_intro; [assumption|assumption|assumption|]. intros b i j Hv Hi Hj.
+    exact (H (IEdge (m, cd, dir) b i j) (conj Hin (conj Hv (conj Hi Hj)))).
+  - apply forallb_forall. intros [[m cd] dir] Hin.
+    destruct (Htr m cd dir (in_or_app _ _ _ (or_intror Hin))) as [Hne Hdir].
+    apply assert_trap_intro; [assumption|assumption|assumption|]. intros b j Hv Hj. split.
+    + exact (H (ITrapL (m, cd, dir) b j) (conj Hin (conj Hv Hj))).
+    + exact (H (ITrapR (m, cd, dir) b j) (conj Hin (conj Hv Hj))).
+  - apply forallb_forall. intros [p q] Hin. apply assert_mdom_intro; [assumption|assumption|].
+    intros b i j Hv Hi Hj. split.
+    + exact (H (IMdomD (p, q) b i j) (conj Hin (conj Hv (conj Hi Hj)))).
+    + exact (H (IMdomW (p, q) b i j) (conj Hin (conj Hv (conj Hi Hj)))).
+  - apply forallb_forall. intros [p q] Hin. apply assert_rdom_intro; [assumption|assumption|].
+    intros b i j Hv Hi Hj. exact (H (IRdom (p, q) b i j) (conj Hin (conj Hv (conj Hi Hj)))).
+  - apply forallb_forall. intros [p q] Hin. apply assert_jmono_intro; [assumption|assumption|].
+    intros b i j Hv Hi Hj. split.
+    + exact (H (IJmonoL (p, q) b i j) (conj Hin (conj Hv (conj Hi Hj)))).
+    + exact (H (IJmonoU (p, q) b i j) (conj Hin (conj Hv (conj Hi Hj)))).
+  - apply assert_lower_intro; [assumption|]. intros lo x E Hv.
+    assert (Hc : covered c (ILower x)) by (cbn [covered]; split; [rewrite E; discriminate|exact Hv]).
+    pose proof (H _ Hc) as H1. cbn [slack] in H1. rewrite E in H1. exact H1.
+  - apply assert_upper_intro; [assumption|]. intros hi x E Hv.
+    assert (Hc : covered c (IUpper x)) by (cbn [covered]; split; [rewrite E; discriminate|exact Hv]).
+    pose proof (H _ Hc) as H1. cbn [slack] in H1. rewrite E in H1. exact H1.
+Qed.
+
+Theorem lattice_sound c W eps q : la_ok c -> covered c q -> slack c W q < - eps -> assert_lattice c W eps = false.
+Proof. intros Hok Hq Hs. apply bool_false_of. intros H. pose proof (assert_lattice_inv c W eps Hok H q Hq). lra. Qed.
+Theorem lattice_complete c W eps : la_ok c -> 0 <= eps ->
+  (forall q, covered c q -> - eps <= slack c W q) -> assert_lattice c W eps = true.
+Proof. exact (assert_lattice_intro c W eps). Qed.
+Theorem lattice_exact c W eps : la_ok c -> 0 <= eps ->
+  (assert_lattice c W eps = true <-> forall q, covered c q -> - eps <= slack c W q).
+Proof. intros Hok He. split. apply assert_lattice_inv; assumption. apply assert_lattice_intro; assumption. Qed.
+
+(* the flat (row-major) kernel the layer stores: same statements about of_list *)
+Theorem lattice_flat_sound c w eps q : la_ok c -> covered c q ->
+  slack c (of_list (a_shape c) w) q < - eps -> assert_lattice_flat c w eps = false.
+Proof. apply lattice_sound. Qed.
+Theorem lattice_flat_complete c w eps : la_ok c -> 0 <= eps ->
+  (forall q, covered c q -> - eps <= slack c (of_list (a_shape c) w) q) -> assert_lattice_flat c w eps = true.
+Proof. apply lattice_complete. Qed.
+
+(* ------------------------------------------------------------------ *)
+(* RTL: conjunction over the lattice layers                             *)
+(* ------------------------------------------------------------------ *)
 Lemma assert_rtl_iff layers eps :
   assert_rtl layers eps = true <-> forall c w, In (c, w) layers -> assert_lattice_flat c w eps = true.
 Proof. unfold assert_rtl. rewrite forallb_forall. split.
   - intros H c w Hin. apply (H (c, w) Hin).
   - intros H [c w] Hin. apply H; assumption. Qed.
+Theorem rtl_sound layers eps c w q : In (c, w) layers -> la_ok c -> covered c q ->
+  slack c (of_list (a_shape c) w) q < - eps -> assert_rtl layers eps = false.
+Proof. intros Hin Hok Hq Hs. apply bool_false_of. intros H. rewrite assert_rtl_iff in H.
+  pose proof (lattice_flat_sound c w eps q Hok Hq Hs). rewrite (H c w Hin) in H0. discriminate. Qed.
+Theorem rtl_complete layers eps : 0 <= eps ->
+  (forall c w, In (c, w) layers -> la_ok c /\ forall q, covered c q -> - eps <= slack c (of_list (a_shape c) w) q) ->
+  assert_rtl layers eps = true.
+Proof. intros He H. apply assert_rtl_iff. intros c w Hin. destruct (H c w Hin) as [Hok Hq].
+  apply lattice_flat_complete; assumption. Qed.
+
+(* ------------------------------------------------------------------ *)
+(* list helpers                                                         *)
+(* ------------------------------------------------------------------ *)
+Lemma forallb_map_seq {A} (P : A -> bool) (f : nat -> A) n :
+  forallb P (map f (seq 0 n)) = true <-> forall u, (u < n)%nat -> P (f u) = true.
+Proof. rewrite forallb_forall. split.
+  - intros H u Hu. apply H. apply in_map. apply in_seq. lia.
+  - intros H x Hx. apply in_map_iff in Hx. destruct Hx as [u [<- Hu]]. apply in_seq in Hu. apply H. lia. Qed.
+
+Lemma fold_qmin_in l : forall a, In (fold_left qmin l a) (a :: l).
+Proof. induction l as [|y l IH]; intros a; cbn [fold_left]. left; reflexivity.
+  destruct (IH (qmin a y)) as [E|Hin].
+  - assert (Hc : qmin a y = a \/ qmin a y = y) by (unfold qmin; destruct (Qle_bool a y); auto).
+    destruct Hc as [Hc|Hc]; [left|right; left]; rewrite <- E; symmetry; exact Hc.
+  - right; right; exact Hin. Qed.
+Lemma qminl_in l : l <> [] -> In (qminl l) l.
+Proof. destruct l as [|y l]; [congruence|]. intros _. apply fold_qmin_in. Qed.
+Lemma fold_qmax_in l : forall a, In (fold_left qmax l a) (a :: l).
+Proof. induction l as [|y l IH]; intros a; cbn [fold_left]. left; reflexivity.
+  destruct (IH (qmax a y)) as [E|Hin].
+  - assert (Hc : qmax a y = a \/ qmax a y = y) by (unfold qmax; destruct (Qle_bool a y); auto).
+    destruct Hc as [Hc|Hc]; [left|right; left]; rewrite <- E; symmetry; exact Hc.
+  - right; right; exact Hin. Qed.
+Lemma qmaxl_in l : l <> [] -> In (qmaxl l) l.
+Proof. destruct l as [|y l]; [congruence|]. intros _. apply fold_qmax_in. Qed.
+
+Definition out_at (outs : list (list Q)) (k u : nat) : Q := nth u (nth k outs []) 0.
+Lemma in_column u outs x : In x (column u outs) <-> exists k, (k < length outs)%nat /\ x = out_at outs k u.
+Proof. unfold column, out_at. rewrite in_map_iff. split.
+  - intros [r [<- Hr]]. apply (In_nth _ _ []) in Hr. destruct Hr as [k [Hk <-]]. exists k; auto.
+  - intros [k [Hk ->]]. exists (nth k outs []). split; [reflexivity|apply nth_In; exact Hk]. Qed.
+Lemma column_nonempty u outs : outs <> [] -> column u outs <> [].
+Proof. destruct outs; [congruence|discriminate]. Qed.
+
+(* min / max of a column against a threshold, without mentioning the reduction *)
+Lemma col_min_ge u outs t : outs <> [] ->
+  (t <= qminl (column u outs) <-> forall k, (k < length outs)%nat -> t <= out_at outs k u).
+Proof. intros Hne. split.
+  - intros H k Hk. pose proof (qminl_le (column u outs) (out_at outs k u) ltac:(apply in_column; exists k; auto)). lra.
+  - intros H. apply qminl_glb. apply column_nonempty; assumption.
+    intros x Hx. apply in_column in Hx. destruct Hx as [k [Hk ->]]. apply H; assumption. Qed.
+Lemma col_min_le u outs t : outs <> [] ->
+  (qminl (column u outs) <= t <-> exists k, (k < length outs)%nat /\ out_at outs k u <= t).
+Proof. intros Hne. split.
+  - intros H. pose proof (qminl_in (column u outs) (column_nonempty u outs Hne)) as Hin.
+    apply in_column in Hin. destruct Hin as [k [Hk E]]. exists k. split; [assumption|]. rewrite <- E. exact H.
+  - intros [k [Hk H]]. pose proof (qminl_le (column u outs) (out_at outs k u) ltac:(apply in_column; exists k; auto)). lra. Qed.
+Lemma col_max_le u outs t : outs <> [] ->
+  (qmaxl (column u outs) <= t <-> forall k, (k < length outs)%nat -> out_at outs k u <= t).
+Proof. intros Hne. split.
+  - intros H k Hk. pose proof (qmaxl_ge (column u outs) (out_at outs k u) ltac:(apply in_column; exists k; auto)). lra.
+  - intros H. apply qmaxl_lub. apply column_nonempty; assumption.
+    intros x Hx. apply in_column in Hx. destruct Hx as [k [Hk ->]]. apply H; assumption. Qed.
+Lemma col_max_ge u outs t : outs <> [] ->
+  (t <= qmaxl (column u outs) <-> exists k, (k < length outs)%nat /\ t <= out_at outs k u).
+Proof. intros Hne. split.
+  - intros H. pose proof (qmaxl_in (column u outs) (column_nonempty u outs Hne)) as Hin.
+    apply in_column in Hin. destruct Hin as [k [Hk E]]. exists k. split; [assumption|]. rewrite <- E. exact H.
+  - intros [k [Hk H]]. pose proof (qmaxl_ge (column u outs) (out_at outs k u) ltac:(apply in_column; exists k; auto)). lra. Qed.
+
+Lemma qabs_le x e : qabs x <= e <-> - e <= x /\ x <= e.
+Proof. split; intros H; qcases; lra. Qed.
+Lemma qabs_lt x e : qabs x < e <-> - e < x /\ x < e.
+Proof. split; intros H; qcases; lra. Qed.
+
+(* ------------------------------------------------------------------ *)
+(* PWL calibration                                                      *)
+(* ------------------------------------------------------------------ *)
+(* every covered constraint of the output matrix holds up to eps: bounds at
+   every keypoint of every unit; with a clamp, additionally some keypoint of
+   EVERY unit reaches the bound up to eps; monotonicity between every two
+   consecutive keypoints of every unit *)
+Definition pwl_feasible (c : pwl_acfg) (outs : list (list Q)) (eps : Q) : Prop :=
+  (forall lo u, pa_min c = Some lo -> (u < pa_units c)%nat ->
+     (forall k, (k < length outs)%nat -> lo - eps <= out_at outs k u) /\
+     (pa_clamp_min c = true -> exists k, (k < length outs)%nat /\ out_at outs k u <= lo + eps)) /\
+  (forall hi u, pa_max c = Some hi -> (u < pa_units c)%nat ->
+     (forall k, (k < length outs)%nat -> out_at outs k u <= hi + eps) /\
+     (pa_clamp_max c = true -> exists k, (k < length outs)%nat /\ hi - eps <= out_at outs k u)) /\
+  (pa_mono c <> 0%Z -> forall k u, (S k < length outs)%nat -> (u < pa_units c)%nat ->
+     - eps <= (out_at outs (S k) u - out_at outs k u) * inject_Z (pa_mono c)).
+
+Lemma in_row_diffs units outs x : In x (row_diffs units outs) <->
+  exists k u, (S k < length outs)%nat /\ (u < units)%nat /\ x = out_at outs (S k) u - out_at outs k u.
+Proof. induction outs as [|r0 rest IH].
+  { cbn. split; [intros []|intros (k & u & H & _); cbn in H; lia]. }
+  destruct rest as [|r1 rest'].
+  { cbn. split; [intros []|intros (k & u & H & _); cbn in H; lia]. }
+  cbn [row_diffs]. rewrite in_app_iff, in_map_iff, IH. split.
+  - intros [[u [<- Hu]]|(k & u & Hk & Hu & ->)].
+    + apply in_seq in Hu. exists 0%nat, u. split; [cbn; lia|]. split; [lia|reflexivity].
+    + exists (S k), u. split; [cbn in *; lia|]. split; [assumption|reflexivity].
+  - intros (k & u & Hk & Hu & ->). destruct k as [|k].
+    + left. exists u. split; [reflexivity|apply in_seq; lia].
+    + right. exists k, u. split; [cbn in *; lia|]. split; [assumption|reflexivity]. Qed.
+
+Theorem pwl_exact c outs eps : outs <> [] -> 0 <= eps ->
+  (assert_pwl_outputs c outs eps = true <-> pwl_feasible c outs eps).
+Proof. intros Hne He. unfold assert_pwl_outputs, pwl_feasible. cbv zeta. rewrite !andb_true_iff.
+  assert (P1 : match pa_min c with
+     | None => true
+     | Some lo => if pa_clamp_min c then forallb (fun m => qle (qabs (m - lo)) eps) (col_mins (pa_units c) outs)
+                  else forallb (fun m => qle (lo - eps) m) (col_mins (pa_units c) outs) end = true <->
+     (forall lo u, pa_min c = Some lo -> (u < pa_units c)%nat ->
+       (forall k, (k < length outs)%nat -> lo - eps <= out_at outs k u) /\
+       (pa_clamp_min c = true -> exists k, (k < length outs)%nat /\ out_at outs k u <= lo + eps))).
+  { destruct (pa_min c) as [lo|]; [|split; [intros _ lo u E; discriminate|reflexivity]].
+    unfold col_mins. destruct (pa_clamp_min c); rewrite forallb_map_seq; split.
+    - intros H lo' u E Hu. injection E as <-. specialize (H u Hu). apply qle_true in H. apply qabs_le in H.
+      destruct H as [H1 H2]. split.
+      + apply (col_min_ge u outs (lo - eps) Hne). lra.
+      + intros _. apply (col_min_le u outs (lo + eps) Hne). lra.
+    - intros H u Hu. destruct (H lo u eq_refl Hu) as [H1 H2]. apply qle_true. apply qabs_le.
+      apply (col_min_ge u outs (lo - eps) Hne) in H1. specialize (H2 eq_refl).
+      apply (col_min_le u outs (lo + eps) Hne) in H2. split; lra.
+    - intros H lo' u E Hu. injection E as <-. specialize (H u Hu). apply qle_true in H. split.
+      + apply (col_min_ge u outs (lo - eps) Hne). exact H.
+      + discriminate.
+    - intros H u Hu. destruct (H lo u eq_refl Hu) as [H1 _]. apply qle_true.
+      apply (col_min_ge u outs (lo - eps) Hne). exact H1. }
+  assert (P2 : match pa_max c with
+     | None => true
+     | Some hi => if pa_clamp_max c then forallb (fun m => qle (qabs (m - hi)) eps) (col_maxs (pa_units c) outs)
+                  else forallb (fun m => qle m (hi + eps)) (col_maxs (pa_units c) outs) end = true <->
+     (forall hi u, pa_max c = Some hi -> (u < pa_units c)%nat ->
+       (forall k, (k < length outs)%nat -> out_at outs k u <= hi + eps) /\
+       (pa_clamp_max c = true -> exists k, (k < length outs)%nat /\ hi - eps <= out_at outs k u))).
+  { destruct (pa_max c) as [hi|]; [|split; [intros _ hi u E; discriminate|reflexivity]].
+    unfold col_maxs. destruct (pa_clamp_max c); rewrite forallb_map_seq; split.
+    - intros H hi' u E Hu. injection E as <-. specialize (H u Hu). apply qle_true in H. apply qabs_le in H.
+      destruct H as [H1 H2]. split.
+      + apply (col_max_le u outs (hi + eps) Hne). lra.
+      + intros _. apply (col_max_ge u outs (hi - eps) Hne). lra.
+    - intros H u Hu. destruct (H hi u eq_refl Hu) as [H1 H2]. apply qle_true. apply qabs_le.
+      apply (col_max_le u outs (hi + eps) Hne) in H1. specialize (H2 eq_refl).
+      apply (col_max_ge u outs (hi - eps) Hne) in H2. split; lra.
+    - intros H hi' u E Hu. injection E as <-. specialize (H u Hu). apply qle_true in H. split.
+      + apply (col_max_le u outs (hi + eps) Hne). exact H.
+      + discriminate.
+    - intros H u Hu. destruct (H hi u eq_refl Hu) as [H1 _]. apply qle_true.
+      apply (col_max_le u outs (hi + eps) Hne). exact H1. }
+  assert (P3 : (if (pa_mono c =? 0)%Z then true
+                else rmin_ge (map (fun d => d * inject_Z (pa_mono c)) (row_diffs (pa_units c) outs)) (- eps)) = true <->
+     (pa_mono c <> 0%Z -> forall k u, (S k < length outs)%nat -> (u < pa_units c)%nat ->
+       - eps <= (out_at outs (S k) u - out_at outs k u) * inject_Z (pa_mono c))).
+  { destruct (Z.eqb_spec (pa_mono c) 0) as [E|E]; [split; [intros _ Hc; congruence|reflexivity]|]. split.
+    - intros H _ k u Hk Hu. apply (rmin_ge_inv _ _ H). apply in_map_iff.
+      exists (out_at outs (S k) u - out_at outs k u). split; [reflexivity|]. apply in_row_diffs. exists k, u. auto.
+    - intros H. apply rmin_ge_intro; [intros _; lra|]. intros x Hx. apply in_map_iff in Hx.
+      destruct Hx as [d [<- Hd]]. apply in_row_diffs in Hd. destruct Hd as (k & u & Hk & Hu & ->). apply H; assumption. }
+  rewrite P1, P2, P3. tauto. Qed.
+
+Theorem pwl_sound c outs eps : outs <> [] -> 0 <= eps -> ~ pwl_feasible c outs eps -> assert_pwl_outputs c outs eps = false.
+Proof. intros Hne He Hn. apply bool_false_of. intros H. apply Hn. apply pwl_exact; assumption. Qed.
+Theorem pwl_complete c outs eps : outs <> [] -> 0 <= eps -> pwl_feasible c outs eps -> assert_pwl_outputs c outs eps = true.
+Proof. intros Hne He H. apply pwl_exact; assumption. Qed.
+
+(* concrete single violations (whichever keypoint / unit) make the assert fail *)
+Corollary pwl_sound_mono c outs eps k u : outs <> [] -> 0 <= eps -> pa_mono c <> 0%Z ->
+  (S k < length outs)%nat -> (u < pa_units c)%nat ->
+  (out_at outs (S k) u - out_at outs k u) * inject_Z (pa_mono c) < - eps -> assert_pwl_outputs c outs eps = false.
+Proof. intros Hne He Hm Hk Hu Hv. apply pwl_sound; [assumption|assumption|]. intros (_ & _ & H).
+  specialize (H Hm k u Hk Hu). lra. Qed.
+Corollary pwl_sound_lower c outs eps lo k u : outs <> [] -> 0 <= eps -> pa_min c = Some lo ->
+  (k < length outs)%nat -> (u < pa_units c)%nat -> out_at outs k u < lo - eps -> assert_pwl_outputs c outs eps = false.
+Proof. intros Hne He Hm Hk Hu Hv. apply pwl_sound; [assumption|assumption|]. intros (H & _ & _).
+  destruct (H lo u Hm Hu) as [H1 _]. specialize (H1 k Hk). lra. Qed.
+Corollary pwl_sound_upper c outs eps hi k u : outs <> [] -> 0 <= eps -> pa_max c = Some hi ->
+  (k < length outs)%nat -> (u < pa_units c)%nat -> hi + eps < out_at outs k u -> assert_pwl_outputs c outs eps = false.
+Proof. intros Hne He Hm Hk Hu Hv. apply pwl_sound; [assumption|assumption|]. intros (_ & H & _).
+  destruct (H hi u Hm Hu) as [H1 _]. specialize (H1 k Hk). lra. Qed.
+Corollary pwl_sound_clamp_min c outs eps lo u : outs <> [] -> 0 <= eps -> pa_min c = Some lo -> pa_clamp_min c = true ->
+  (u < pa_units c)%nat -> (forall k, (k < length outs)%nat -> lo + eps < out_at outs k u) ->
+  assert_pwl_outputs c outs eps = false.
+Proof. intros Hne He Hm Hc Hu Hv. apply pwl_sound; [assumption|assumption|]. intros (H & _ & _).
+  destruct (H lo u Hm Hu) as [_ H2]. destruct (H2 Hc) as [k [Hk Hle]]. specialize (Hv k Hk). lra. Qed.
+Corollary pwl_sound_clamp_max c outs eps hi u : outs <> [] -> 0 <= eps -> pa_max c = Some hi -> pa_clamp_max c = true ->
+  (u < pa_units c)%nat -> (forall k, (k < length outs)%nat -> out_at outs k u < hi - eps) ->
+  assert_pwl_outputs c outs eps = false.
+Proof. intros Hne He Hm Hc Hu Hv. apply pwl_sound; [assumption|assumption|]. intros (_ & H & _).
+  destruct (H hi u Hm Hu) as [_ H2]. destruct (H2 Hc) as [k [Hk Hle]]. specialize (Hv k Hk). lra. Qed.
+
+(* ---- the PWLCalibration layer: outputs at the keypoints are prefix sums of the kernel ---- *)
+Lemma run_sums_at units rows : forall acc k u, (k < length rows)%nat -> (u < units)%nat ->
+  out_at (run_sums acc units rows) k u == nth u acc 0 + qsum (firstn (S k) (column u rows)).
+Proof. induction rows as [|r rest IH]; intros acc k u Hk Hu; cbn [length] in Hk. lia.
+  cbn [run_sums]. destruct k as [|k].
+  - unfold out_at. cbn [nth]. rewrite nth_map_seq by assumption. cbn. lra.
+  - change (out_at (?s :: ?t) (S k) u) with (out_at t k u). rewrite IH by (assumption || lia).
+    rewrite nth_map_seq by assumption. cbn [column map firstn qsum]. fold (column u rest). lra. Qed.
+Lemma run_sums_length units rows : forall acc, length (run_sums acc units rows) = length rows.
+Proof. induction rows as [|r rest IH]; intros acc; cbn; [reflexivity|rewrite IH; reflexivity]. Qed.
+
+Lemma keypoint_outputs_at units cyclic kernel k u : (k < length kernel)%nat -> (u < units)%nat ->
+  out_at (pwl_keypoint_outputs units cyclic kernel) k u == qsum (firstn (S k) (column u kernel)).
+Proof. intros Hk Hu. unfold pwl_keypoint_outputs. cbv zeta.
+  assert (E : out_at (run_sums (map (fun _ => 0) (seq 0 units)) units kernel) k u ==
+              qsum (firstn (S k) (column u kernel))).
+  { rewrite run_sums_at by assumption. rewrite nth_map_seq by assumption. lra. }
+  destruct cyclic; [|exact E]. unfold out_at in *. rewrite app_nth1 by (rewrite run_sums_length; exact Hk). exact E. Qed.
+Lemma keypoint_outputs_cyclic_last units kernel u : kernel <> [] -> (u < units)%nat ->
+  out_at (pwl_keypoint_outputs units true kernel) (length kernel) u == nth u (nth 0 kernel []) 0.
+Proof. intros Hne Hu. unfold pwl_keypoint_outputs. cbv zeta. unfold out_at.
+  rewrite app_nth2 by (rewrite run_sums_length; lia). rewrite run_sums_length, Nat.sub_diag.
+  destruct kernel as [|r rest]; [congruence|]. cbn [run_sums firstn nth]. rewrite nth_map_seq by assumption.
+  rewrite nth_map_seq by assumption. lra. Qed.
+Lemma keypoint_outputs_nonempty units cyclic kernel : kernel <> [] -> pwl_keypoint_outputs units cyclic kernel <> [].
+Proof. intros Hne. unfold pwl_keypoint_outputs. cbv zeta. destruct kernel as [|r rest]; [congruence|].
+  cbn [run_sums]. destruct cyclic; discriminate. Qed.
+
+Definition missing_feasible (c : pwl_layer_acfg) (eps : Q) : Prop :=
+  forall mo u, pl_missing c = Some mo -> (u < pa_units (pl_cfg c))%nat ->
+    (forall lo, pa_min (pl_cfg c) = Some lo -> lo - eps <= nth u mo 0) /\
+    (forall hi, pa_max (pl_cfg c) = Some hi -> nth u mo 0 <= hi + eps).
+
+Theorem pwl_layer_exact c kernel eps : kernel <> [] -> 0 <= eps ->
+  (assert_pwl_layer c kernel eps = true <->
+   pwl_feasible (pl_cfg c) (pwl_keypoint_outputs (pa_units (pl_cfg c)) (pl_cyclic c) kernel) eps /\
+   missing_feasible c eps).
+Proof. intros Hne He. unfold assert_pwl_layer, missing_feasible. cbv zeta. rewrite andb_true_iff.
+  rewrite (pwl_exact _ _ _ (keypoint_outputs_nonempty _ _ _ Hne) He).
+  destruct (pl_missing c) as [mo|].
+  - rewrite (pwl_exact _ [mo] eps ltac:(discriminate) He). unfold pwl_feasible. cbn [pa_units pa_min pa_max pa_clamp_min pa_clamp_max pa_mono length].
+    split.
+    + intros [H (H1 & H2 & _)]. split; [exact H|]. intros mo' u E Hu. injection E as <-. split.
+      * intros lo El. destruct (H1 lo u El Hu) as [G _]. exact (G 0%nat ltac:(lia)).
+      * intros hi Eh. destruct (H2 hi u Eh Hu) as [G _]. exact (G 0%nat ltac:(lia)).
+    + intros [H Hm]. split; [exact H|]. split; [|split].
+      * intros lo u El Hu. split; [|discriminate]. intros k Hk. assert (k = 0%nat) by lia. subst k.
+        exact (proj1 (Hm mo u eq_refl Hu) lo El).
+      * intros hi u Eh Hu. split; [|discriminate]. intros k Hk. assert (k = 0%nat) by lia. subst k.
+        exact (proj2 (Hm mo u eq_refl Hu) hi Eh).
+      * intros Hc. exfalso. apply Hc. reflexivity.
+  - split; [intros [H _]; split; [exact H|intros mo u E; discriminate]|intros [H _]; split; [exact H|reflexivity]]. Qed.
+
+(* ------------------------------------------------------------------ *)
+(* Linear                                                               *)
+(* ------------------------------------------------------------------ *)
+Definition norm_spec (ord : nat) (col : list Q) (eps : Q) : Prop :=
+  match ord with
+  | 1%nat => qabs (qsum (map qabs col) - 1) < eps \/ qabs (qsum (map qabs col)) < norm_eps
+  | _ => let s := qsum (map (fun x => x * x) col) in
+         (s < (1 + eps) * (1 + eps) /\ (1 - eps < 0 \/ (1 - eps) * (1 - eps) < s)) \/ s < norm_eps * norm_eps
+  end.
+Lemma norm_ok_spec ord col eps : norm_ok ord col eps = true <-> norm_spec ord col eps.
+Proof. unfold norm_ok, norm_spec. destruct ord as [|[|ord]]; cbv zeta;
+  rewrite ?orb_true_iff, ?andb_true_iff, ?orb_true_iff, ?qlt_true; tauto. Qed.
+
+(* the comparison of squares is the comparison of the Euclidean norm: for ANY
+   r >= 0 with r * r == s (the square root tf.norm computes) *)
+Lemma l2_check_meaning r s eps : 0 <= r -> r * r == s -> 0 <= eps ->
+  (qabs (r - 1) < eps <-> s < (1 + eps) * (1 + eps) /\ (1 - eps < 0 \/ (1 - eps) * (1 - eps) < s)).
+Proof. intros Hr Hs He. rewrite qabs_lt. split.
+  - intros [H1 H2]. split.
+    + nra.
+    + destruct (Qlt_le_dec (1 - eps) 0) as [Hn|Hn]; [left; exact Hn|right; nra].
+  - intros [H1 H2]. split.
+    + destruct H2 as [H2|H2]; [lra|]. destruct (Qlt_le_dec (- eps) (r - 1)) as [G|G]; [exact G|]. exfalso. nra.
+    + destruct (Qlt_le_dec (r - 1) eps) as [G|G]; [exact G|]. exfalso. nra. Qed.
+Lemma l2_zero_meaning r s ne : 0 <= r -> r * r == s -> 0 < ne -> (qabs r < ne <-> s < ne * ne).
+Proof. intros Hr Hs Hn. rewrite qabs_lt. split.
+  - intros [H1 H2]. nra.
+  - intros H. split; [lra|]. destruct (Qlt_le_dec r ne) as [G|G]; [exact G|]. exfalso. nra. Qed.
+
+Definition lin_feasible (c : lin_acfg) (K : list (list Q)) (eps : Q) : Prop :=
+  (forall i u, (i < length K)%nat -> (u < li_units c)%nat ->
+     - eps <= kat K i u * inject_Z (nth i (li_monos c) 0%Z)) /\
+  (forall d w u, In (d, w) (li_mdom c) -> (u < li_units c)%nat -> - eps <= kat K d u - kat K w u) /\
+  (forall d w u, In (d, w) (li_rdom c) -> (u < li_units c)%nat ->
+     - eps <= lin_scaling c d * kat K d u - lin_scaling c w * kat K w u) /\
+  (forall ord u, li_norm c = Some ord -> (u < li_units c)%nat -> norm_spec ord (unit_col K u) eps).
+
+Lemma any_nonzero_false ms i : any_nonzero ms = false -> nth i ms 0%Z = 0%Z.
+Proof. unfold any_nonzero. intros H. destruct (Nat.ltb_spec i (length ms)) as [Hi|Hi].
+  - pose proof (nth_In ms 0%Z Hi) as Hin. destruct (Z.eqb_spec (nth i ms 0%Z) 0) as [E|E]; [exact E|].
+    exfalso. assert (existsb (fun m => negb (m =? 0)%Z) ms = true).
+    { apply existsb_exists. exists (nth i ms 0%Z). split; [exact Hin|]. apply negb_true_iff. apply Z.eqb_neq. exact E. }
+    congruence.
+  - apply nth_overflow. exact Hi. Qed.
+
+Lemma match_nil_forallb {A} (f : A -> bool) l : match l with [] => true | _ => forallb f l end = forallb f l.
+Proof. destruct l; reflexivity. Qed.
+
+Theorem lin_exact c K eps : 0 <= eps -> (assert_linear c K eps = true <-> lin_feasible c K eps).
+Proof. intros He. unfold assert_linear, lin_feasible. rewrite match_nil_forallb. rewrite !andb_true_iff.
+  assert (P1 : assert_lin_mono c K eps = true <->
+    (forall i u, (i < length K)%nat -> (u < li_units c)%nat -> - eps <= kat K i u * inject_Z (nth i (li_monos c) 0%Z))).
+  { unfold assert_lin_mono. destruct (any_nonzero (li_monos c)) eqn:E.
+    - split.
+      + intros H i u Hi Hu. apply (rmin_ge_inv _ _ H). apply in_flat_map. exists i. split. apply in_seq; lia.
+        apply in_map_iff. exists u. split; [reflexivity|apply in_seq; lia].
+      + intros H. apply rmin_ge_intro; [intros _; lra|]. intros x Hx. apply in_flat_map in Hx.
+        destruct Hx as [i [Hi Hx]]. apply in_map_iff in Hx. destruct Hx as [u [<- Hu]]. apply in_seq in Hi, Hu.
+        apply H; lia.
+    - split; [|reflexivity]. intros _ i u _ _. rewrite (any_nonzero_false _ i E). change (inject_Z 0) with 0. lra. }
+  assert (P2 : forallb (assert_lin_mdom c K eps) (li_mdom c) = true <->
+    (forall d w u, In (d, w) (li_mdom c) -> (u < li_units c)%nat -> - eps <= kat K d u - kat K w u)).
+  { rewrite forallb_forall. split.
+    - intros H d w u Hin Hu. specialize (H (d, w) Hin). cbn in H. apply (rmin_ge_inv _ _ H).
+      apply in_map_iff. exists u. split; [reflexivity|apply in_seq; lia].
+    - intros H [d w] Hin. cbn. apply rmin_ge_intro; [intros _; lra|]. intros x Hx. apply in_map_iff in Hx.
+      destruct Hx as [u [<- Hu]]. apply in_seq in Hu. apply (H d w u Hin). lia. }
+  assert (P3 : forallb (assert_lin_rdom c K eps) (li_rdom c) = true <->
+    (forall d w u, In (d, w) (li_rdom c) -> (u < li_units c)%nat ->
+       - eps <= lin_scaling c d * kat K d u - lin_scaling c w * kat K w u)).
+  { rewrite forallb_forall. split.
+    - intros H d w u Hin Hu. specialize (H (d, w) Hin). cbn in H. apply (rmin_ge_inv _ _ H).
+      apply in_map_iff. exists u. split; [reflexivity|apply in_seq; lia].
+    - intros H [d w] Hin. cbn. apply rmin_ge_intro; [intros _; lra|]. intros x Hx. apply in_map_iff in Hx.
+      destruct Hx as [u [<- Hu]]. apply in_seq in Hu. apply (H d w u Hin). lia. }
+  assert (P4 : assert_lin_norm c K eps = true <->
+    (forall ord u, li_norm c = Some ord -> (u < li_units c)%nat -> norm_spec ord (unit_col K u) eps)).
+  { unfold assert_lin_norm. destruct (li_norm c) as [ord|]; [|split; [intros _ ord u E; discriminate|reflexivity]].
+    rewrite forallb_forall. split.
+    - intros H ord' u E Hu. injection E as <-. apply norm_ok_spec. apply H. apply in_seq; lia.
+    - intros H u Hu. apply in_seq in Hu. apply norm_ok_spec. apply (H ord u eq_refl). lia. }
+  rewrite P1, P2, P3, P4. tauto. Qed.
+
+Theorem lin_sound c K eps : 0 <= eps -> ~ lin_feasible c K eps -> assert_linear c K eps = false.
+Proof. intros He Hn. apply bool_false_of. intros H. apply Hn. apply lin_exact; assumption. Qed.
+Theorem lin_complete c K eps : 0 <= eps -> lin_feasible c K eps -> assert_linear c K eps = true.
+Proof. intros He H. apply lin_exact; assumption. Qed.
+
+(* ------------------------------------------------------------------ *)
+(* Categorical                                                          *)
+(* ------------------------------------------------------------------ *)
+Definition cat_feasible (c : cat_acfg) (K : list (list Q)) (eps : Q) : Prop :=
+  (forall lo b u, ca_min c = Some lo -> (b < length K)%nat -> (u < ca_units c)%nat -> lo - eps <= kat K b u) /\
+  (forall hi b u, ca_max c = Some hi -> (b < length K)%nat -> (u < ca_units c)%nat -> kat K b u <= hi + eps) /\
+  (forall i j u, In (i, j) (ca_pairs c) -> (u < ca_units c)%nat -> kat K i u - kat K j u <= eps).
+
+Lemma in_all_entries units K x : In x (all_entries units K) <->
+  exists b u, (b < length K)%nat /\ (u < units)%nat /\ x = kat K b u.
+Proof. unfold all_entries, kat, krow. rewrite in_flat_map. split.
+  - intros [r [Hr Hx]]. apply in_map_iff in Hx. destruct Hx as [u [<- Hu]]. apply in_seq in Hu.
+    apply (In_nth _ _ []) in Hr. destruct Hr as [b [Hb <-]]. exists b, u. split; [assumption|]. split; [lia|reflexivity].
+  - intros (b & u & Hb & Hu & ->). exists (nth b K []). split; [apply nth_In; exact Hb|].
+    apply in_map_iff. exists u. split; [reflexivity|apply in_seq; lia]. Qed.
+Lemma all_entries_nonempty units K : K <> [] -> (1 <= units)%nat -> all_entries units K <> [].
+Proof. intros HK Hu E. assert (Hin : In (kat K 0 0) (all_entries units K)).
+  { apply in_all_entries. exists 0%nat, 0%nat. split; [destruct K; [congruence|cbn; lia]|]. split; [lia|reflexivity]. }
+  rewrite E in Hin. destruct Hin. Qed.
+
+Theorem cat_exact c K eps : K <> [] -> (1 <= ca_units c)%nat -> 0 <= eps ->
+  (assert_categorical c K eps = true <-> cat_feasible c K eps).
+Proof. intros HK Hu1 He. unfold assert_categorical, cat_feasible. rewrite !andb_true_iff.
+  assert (P1 : match ca_min c with None => true | Some lo => rmin_ge (all_entries (ca_units c) K) (lo - eps) end = true <->
+    (forall lo b u, ca_min c = Some lo -> (b < length K)%nat -> (u < ca_units c)%nat -> lo - eps <= kat K b u)).
+  { destruct (ca_min c) as [lo|]; [|split; [intros _ lo b u E; discriminate|reflexivity]]. split.
+    - intros H lo' b u E Hb Hu. injection E as <-. apply (rmin_ge_inv _ _ H). apply in_all_entries. exists b, u. auto.
+    - intros H. apply rmin_ge_intro. intros E. exfalso. exact (all_entries_nonempty _ _ HK Hu1 E).
+      intros x Hx. apply in_all_entries in Hx. destruct Hx as (b & u & Hb & Hu & ->). apply (H lo b u eq_refl Hb Hu). }
+  assert (P2 : match ca_max c with None => true | Some hi => rmax_le (all_entries (ca_units c) K) (hi + eps) end = true <->
+    (forall hi b u, ca_max c = Some hi -> (b < length K)%nat -> (u < ca_units c)%nat -> kat K b u <= hi + eps)).
+  { destruct (ca_max c) as [hi|]; [|split; [intros _ hi b u E; discriminate|reflexivity]]. split.
+    - intros H hi' b u E Hb Hu. injection E as <-. apply (rmax_le_inv _ _ H). apply in_all_entries. exists b, u. auto.
+    - intros H. apply rmax_le_intro. intros E. exfalso. exact (all_entries_nonempty _ _ HK Hu1 E).
+      intros x Hx. apply in_all_entries in Hx. destruct Hx as (b & u & Hb & Hu & ->). apply (H hi b u eq_refl Hb Hu). }
+  assert (P3 : match ca_pairs c with
+               | [] => true
+               | _ => rmax_le (flat_map (fun ij => map (fun u => kat K (fst ij) u - kat K (snd ij) u) (seq 0 (ca_units c)))
+                                        (ca_pairs c)) eps end = true <->
+    (forall i j u, In (i, j) (ca_pairs c) -> (u < ca_units c)%nat -> kat K i u - kat K j u <= eps)).
+  { assert (G : rmax_le (flat_map (fun ij => map (fun u => kat K (fst ij) u - kat K (snd ij) u) (seq 0 (ca_units c)))
+                                  (ca_pairs c)) eps = true <->
+      (forall i j u, In (i, j) (ca_pairs c) -> (u < ca_units c)%nat -> kat K i u - kat K j u <= eps)).
+    { split.
+      - intros H i j u Hin Hu. apply (rmax_le_inv _ _ H). apply in_flat_map. exists (i, j). split; [exact Hin|].
+        apply in_map_iff. exists u. split; [reflexivity|apply in_seq; lia].
+      - intros H. apply rmax_le_intro; [intros _; exact He|]. intros x Hx. apply in_flat_map in Hx.
+        destruct Hx as [[i j] [Hin Hx]]. apply in_map_iff in Hx. destruct Hx as [u [<- Hu]]. apply in_seq in Hu.
+        cbn [fst snd]. apply (H i j u Hin). lia. }
+    destruct (ca_pairs c) as [|p ps] eqn:E; [|exact G]. split; [intros _ i j u []|reflexivity]. }
+  rewrite P1, P2. revert P3. destruct (ca_pairs c); intros P3; rewrite P3; tauto. Qed.
+
+Theorem cat_sound c K eps : K <> [] -> (1 <= ca_units c)%nat -> 0 <= eps ->
+  ~ cat_feasible c K eps -> assert_categorical c K eps = false.
+Proof. intros HK Hu He Hn. apply bool_false_of. intros H. apply Hn. apply cat_exact; assumption. Qed.
+Theorem cat_complete c K eps : K <> [] -> (1 <= ca_units c)%nat -> 0 <= eps ->
+  cat_feasible c K eps -> assert_categorical c K eps = true.
+Proof. intros HK Hu He H. apply cat_exact; assumption. Qed.
+(* one violated ordering pair is enough, whichever pair and unit (defect D9, fixed) *)
+Corollary cat_sound_pair c K eps i j u : K <> [] -> (1 <= ca_units c)%nat -> 0 <= eps ->
+  In (i, j) (ca_pairs c) -> (u < ca_units c)%nat -> eps < kat K i u - kat K j u -> assert_categorical c K eps = false.
+Proof. intros HK Hu1 He Hin Hu Hv. apply cat_sound; try assumption. intros (_ & _ & H). specialize (H i j u Hin Hu). lra. Qed.
+
+(* ------------------------------------------------------------------ *)
+(* Kronecker-factored lattice                                           *)
+(* ------------------------------------------------------------------ *)
+Lemma qprod_nonneg {A} (g : A -> Q) ds : (forall d, In d ds -> 0 <= g d) -> 0 <= qprod (map g ds).
+Proof. induction ds as [|d ds IH]; intros H; cbn [map qprod]. lra.
+  apply qmul_nonneg. apply H; left; reflexivity. apply IH. intros; apply H; right; assumption. Qed.
+Lemma qprod_le {A} (g h : A -> Q) ds : (forall d, In d ds -> 0 <= g d /\ g d <= h d) ->
+  qprod (map g ds) <= qprod (map h ds).
+Proof. induction ds as [|d ds IH]; intros H; cbn [map qprod]. lra.
+  destruct (H d (or_introl eq_refl)) as [H0 H1].
+  assert (IH' : qprod (map g ds) <= qprod (map h ds)) by (apply IH; intros; apply H; right; assumption).
+  assert (P0 : 0 <= qprod (map g ds)) by (apply qprod_nonneg; intros d' Hd'; apply (H d'); right; assumption).
+  pose proof (qmul_le_l (g d) _ _ H0 IH'). 
+  pose proof (qmul_nonneg (h d - g d) (qprod (map h ds)) ltac:(lra) ltac:(lra)). lra. Qed.
+
+(* finite choice of one maximising keypoint per dimension *)
+Lemma choose_keypoints (f : nat -> nat -> Q) L : (1 <= L)%nat -> forall n,
+  exists v : nat -> nat, forall d, (d < n)%nat -> (v d < L)%nat /\ qmaxl (map (f d) (seq 0 L)) = f d (v d).
+Proof. intros HL. induction n as [|n [v Hv]]. exists (fun _ => 0%nat). intros d Hd; lia.
+  assert (Hin : In (qmaxl (map (f n) (seq 0 L))) (map (f n) (seq 0 L))).
+  { apply qmaxl_in. destruct L; [lia|discriminate]. }
+  apply in_map_iff in Hin. destruct Hin as [k [Ek Hk]]. apply in_seq in Hk.
+  exists (fun d => if (d =? n)%nat then k else v d). intros d Hd.
+  destruct (Nat.eqb_spec d n) as [->|Hne]. split; [lia|symmetry; exact Ek]. apply Hv. lia. Qed.
+
+Definition kfl_feasible (c : kfl_acfg) (Sc : list (list Q)) (K : tens) (eps : Q) : Prop :=
+  (* sign-aware monotonicity between consecutive keypoints, every unit and term *)
+  (forall d j u t, (d < Nat.min (length (k_monos c)) (k_dims c))%nat -> nth d (k_monos c) 0%Z <> 0%Z ->
+     (S j < k_L c)%nat -> (u < k_units c)%nat -> (t < k_terms c)%nat ->
+     - eps <= qsign (sc_at Sc u t) * K [S j; u; d; t] - qsign (sc_at Sc u t) * K [j; u; d; t]) /\
+  match k_min c, k_max c with
+  | None, None => True
+  | Some lo, Some hi =>
+    (* every term of every unit is at most 1 + eps in absolute value at EVERY lattice vertex v *)
+    (forall u t (v : nat -> nat), (u < k_units c)%nat -> (t < k_terms c)%nat ->
+       (forall d, (d < k_dims c)%nat -> (v d < k_L c)%nat) ->
+       qprod (map (fun d => qabs (K [v d; u; d; t])) (seq 0 (k_dims c))) <= 1 + eps) /\
+    (forall u t, (u < k_units c)%nat -> (t < k_terms c)%nat ->
+       - ((hi - lo) * (1#2)) <= sc_at Sc u t /\ sc_at Sc u t <= (hi - lo) * (1#2))
+  | Some _, None =>
+    (forall i, valid (k_shape c) i -> 0 <= K i) /\
+    (forall u t, (u < k_units c)%nat -> (t < k_terms c)%nat -> 0 <= sc_at Sc u t)
+  | None, Some _ =>
+    (forall i, valid (k_shape c) i -> 0 <= K i) /\
+    (forall u t, (u < k_units c)%nat -> (t < k_terms c)%nat -> sc_at Sc u t <= 0)
+  end.
+
+Lemma in_ut {A} (f : nat -> nat -> A) units terms x :
+  In x (flat_map (fun u => map (fun t => f u t) (seq 0 terms)) (seq 0 units)) <->
+  exists u t, (u < units)%nat /\ (t < terms)%nat /\ x = f u t.
+Proof. rewrite in_flat_map. split.
+  - intros [u [Hu Hx]]. apply in_map_iff in Hx. destruct Hx as [t [<- Ht]]. apply in_seq in Hu, Ht.
+    exists u, t. split; [lia|]. split; [lia|reflexivity].
+  - intros (u & t & Hu & Ht & ->). exists u. split; [apply in_seq; lia|]. apply in_map_iff. exists t.
+    split; [reflexivity|apply in_seq; lia]. Qed.
+
+Lemma forallb_ut (P : Q -> bool) (f : nat -> nat -> Q) units terms :
+  forallb P (flat_map (fun u => map (fun t => f u t) (seq 0 terms)) (seq 0 units)) = true <->
+  forall u t, (u < units)%nat -> (t < terms)%nat -> P (f u t) = true.
+Proof. rewrite forallb_forall. split.
+  - intros H u t Hu Ht. apply H. apply in_ut. exists u, t. auto.
+  - intros H x Hx. apply in_ut in Hx. destruct Hx as (u & t & Hu & Ht & ->). apply H; assumption. Qed.
+
+Lemma kfl_max_product_spec c K u t eps : (1 <= k_L c)%nat ->
+  (kfl_max_product c K u t <= 1 + eps <->
+   forall v : nat -> nat, (forall d, (d < k_dims c)%nat -> (v d < k_L c)%nat) ->
+     qprod (map (fun d => qabs (K [v d; u; d; t])) (seq 0 (k_dims c))) <= 1 + eps).
+Proof. intros HL. unfold kfl_max_product. split.
+  - intros H v Hv. eapply Qle_trans; [|exact H]. apply qprod_le. intros d Hd. apply in_seq in Hd. split.
+    apply qabs_nonneg. apply qmaxl_ge. apply (in_map (fun k => qabs (K [k; u; d; t]))). apply in_seq. specialize (Hv d ltac:(lia)). lia.
+  - intros H. destruct (choose_keypoints (fun d k => qabs (K [k; u; d; t])) (k_L c) HL (k_dims c)) as [v Hv].
+    specialize (H v (fun d Hd => proj1 (Hv d Hd))).
+    assert (E : map (fun d => qmaxl (map (fun k => qabs (K [k; u; d; t])) (seq 0 (k_L c)))) (seq 0 (k_dims c)) =
+                map (fun d => qabs (K [v d; u; d; t])) (seq 0 (k_dims c))).
+    { apply map_ext_in. intros d Hd. apply in_seq in Hd. exact (proj2 (Hv d ltac:(lia))). }
+    rewrite E. exact H. Qed.
+
+Theorem kfl_exact c Sc K eps : (1 <= k_L c)%nat -> 0 <= eps ->
+  (assert_kfl c Sc K eps = true <-> kfl_feasible c Sc K eps).
+Proof. intros HL He. unfold assert_kfl, kfl_feasible. rewrite andb_true_iff.
+  assert (P1 : assert_kfl_mono c Sc eps K = true <->
+    (forall d j u t, (d < Nat.min (length (k_monos c)) (k_dims c))%nat -> nth d (k_monos c) 0%Z <> 0%Z ->
+       (S j < k_L c)%nat -> (u < k_units c)%nat -> (t < k_terms c)%nat ->
+       - eps <= qsign (sc_at Sc u t) * K [S j; u; d; t] - qsign (sc_at Sc u t) * K [j; u; d; t])).
+  { unfold assert_kfl_mono.
+    assert (G : forallb (fun d => if (nth d (k_monos c) 0 =? 0)%Z then true else
+        forallb (fun j => rmin_ge (flat_map (fun u => map (fun t =>
+           qsign (sc_at Sc u t) * K [S j; u; d; t] - qsign (sc_at Sc u t) * K [j; u; d; t])
+           (seq 0 (k_terms c))) (seq 0 (k_units c))) (- eps)) (seq 0 (k_L c - 1)))
+        (seq 0 (Nat.min (length (k_monos c)) (k_dims c))) = true <->
+      (forall d j u t, (d < Nat.min (length (k_monos c)) (k_dims c))%nat -> nth d (k_monos c) 0%Z <> 0%Z ->
+         (S j < k_L c)%nat -> (u < k_units c)%nat -> (t < k_terms c)%nat ->
+         - eps <= qsign (sc_at Sc u t) * K [S j; u; d; t] - qsign (sc_at Sc u t) * K [j; u; d; t])).
+    { rewrite forallb_forall. split.
+      - intros H d j u t Hd Hm Hj Hu Ht. specialize (H d ltac:(apply in_seq; lia)).
+        destruct (Z.eqb_spec (nth d (k_monos c) 0%Z) 0) as [E|E]; [congruence|].
+        rewrite forallb_forall in H. specialize (H j ltac:(apply in_seq; lia)).
+        apply (rmin_ge_inv _ _ H).
+        apply (in_ut (fun u t => qsign (sc_at Sc u t) * K [S j; u; d; t] - qsign (sc_at Sc u t) * K [j; u; d; t])).
+        exists u, t. auto.
+      - intros H d Hd. apply in_seq in Hd. destruct (Z.eqb_spec (nth d (k_monos c) 0%Z) 0) as [E|E]; [reflexivity|].
+        apply forallb_forall. intros j Hj. apply in_seq in Hj. apply rmin_ge_intro; [intros _; lra|].
+        intros x Hx.
+        apply (in_ut (fun u t => qsign (sc_at Sc u t) * K [S j; u; d; t] - qsign (sc_at Sc u t) * K [j; u; d; t])) in Hx.
+        destruct Hx as (u & t & Hu & Ht & ->). apply H; (assumption || lia). }
+    destruct (k_monos c) as [|m ms] eqn:Em; [|exact G].
+    split; [|reflexivity]. intros _ d j u t Hd. cbn in Hd. lia. }
+  assert (Pneg : forallb (fun w => negb (qlt w 0)) (kfl_all_entries c K) = true <->
+                 (forall i, valid (k_shape c) i -> 0 <= K i)).
+  { unfold kfl_all_entries. rewrite forallb_forall. split.
+    - intros H i Hv. specialize (H (K i) ltac:(apply in_map; apply all_idx_valid; exact Hv)).
+      apply negb_true_iff in H. apply qlt_false in H. exact H.
+    - intros H x Hx. apply in_map_iff in Hx. destruct Hx as [i [<- Hi]]. apply all_idx_valid in Hi.
+      apply negb_true_iff. apply qlt_false. apply H; assumption. }
+  unfold assert_kfl_bounds. rewrite P1.
+  destruct (k_min c) as [lo|], (k_max c) as [hi|].
+  - rewrite andb_true_iff. unfold kfl_all_scales. rewrite forallb_ut.
+    assert (Pp : forallb (fun t => forallb (fun u => qle (- eps) (1 - kfl_max_product c K u t)) (seq 0 (k_units c)))
+                   (seq 0 (k_terms c)) = true <->
+      (forall u t (v : nat -> nat), (u < k_units c)%nat -> (t < k_terms c)%nat ->
+         (forall d, (d < k_dims c)%nat -> (v d < k_L c)%nat) ->
+         qprod (map (fun d => qabs (K [v d; u; d; t])) (seq 0 (k_dims c))) <= 1 + eps)).
+    { rewrite forallb_forall. split.
+      - intros H u t v Hu Ht Hv. specialize (H t ltac:(apply in_seq; lia)). rewrite forallb_forall in H.
+        specialize (H u ltac:(apply in_seq; lia)). apply qle_true in H.
+        apply (kfl_max_product_spec c K u t eps HL); [lra|exact Hv].
+      - intros H t Ht. apply in_seq in Ht. apply forallb_forall. intros u Hu. apply in_seq in Hu. apply qle_true.
+        assert (kfl_max_product c K u t <= 1 + eps).
+        { apply (kfl_max_product_spec c K u t eps HL). intros v Hv. apply H; (assumption || lia). }
+        lra. }
+    rewrite Pp. split.
+    + intros [Hm [Hp Hs]]. split; [exact Hm|]. split; [exact Hp|]. intros u t Hu Ht. specialize (Hs u t Hu Ht).
+      apply andb_prop in Hs. destruct Hs as [H1 H2]. apply negb_true_iff in H1, H2. apply qlt_false in H1, H2. split; lra.
+    + intros [Hm [Hp Hs]]. split; [exact Hm|]. split; [exact Hp|]. intros u t Hu Ht. destruct (Hs u t Hu Ht) as [H1 H2].
+      apply andb_true_intro. split; apply negb_true_iff; apply qlt_false; lra.
+  - rewrite andb_true_iff, Pneg. unfold kfl_all_scales. rewrite forallb_ut. split.
+    + intros [Hm [Hn Hs]]. split; [exact Hm|]. split; [exact Hn|]. intros u t Hu Ht. specialize (Hs u t Hu Ht).
+      apply negb_true_iff in Hs. apply qlt_false in Hs. exact Hs.
+    + intros [Hm [Hn Hs]]. split; [exact Hm|]. split; [exact Hn|]. intros u t Hu Ht.
+      apply negb_true_iff. apply qlt_false. apply Hs; assumption.
+  - rewrite andb_true_iff, Pneg. unfold kfl_all_scales. rewrite forallb_ut. split.
+    + intros [Hm [Hn Hs]]. split; [exact Hm|]. split; [exact Hn|]. intros u t Hu Ht. specialize (Hs u t Hu Ht).
+      apply negb_true_iff in Hs. apply qlt_false in Hs. exact Hs.
+    + intros [Hm [Hn Hs]]. split; [exact Hm|]. split; [exact Hn|]. intros u t Hu Ht.
+      apply negb_true_iff. apply qlt_false. apply Hs; assumption.
+  - split; [intros [Hm _]; split; [exact Hm|exact I]|intros [Hm _]; split; [exact Hm|reflexivity]]. Qed.
+
+Theorem kfl_sound c Sc K eps : (1 <= k_L c)%nat -> 0 <= eps -> ~ kfl_feasible c Sc K eps -> assert_kfl c Sc K eps = false.
+Proof. intros HL He Hn. apply bool_false_of. intros H. apply Hn. apply kfl_exact; assumption. Qed.
+Theorem kfl_complete c Sc K eps : (1 <= k_L c)%nat -> 0 <= eps -> kfl_feasible c Sc K eps -> assert_kfl c Sc K eps = true.
+Proof. intros HL He H. apply kfl_exact; assumption. Qed.
+
+(* ------------------------------------------------------------------ *)
+(* Link with the C01 vocabulary (Proofs/LatticeSpec.v): with eps = 0 the *)
+(* Lattice assert accepts exactly the kernels that are [feasible_kernel] *)
+(* ------------------------------------------------------------------ *)
+Definition la_of (c : lat_cfg) : la_cfg :=
+  mkLA (l_sizes c) (l_units c) (l_monos c) (l_edge c) (l_trap c) [] [] [] (l_min c) (l_max c).
+
+Lemma la_of_ok c : cfg_valid c -> la_ok (la_of c).
+Proof. intros Hc. pose proof Hc as (Hs & Hu & Hl & Hm & Hok & Hmc & _). unfold la_ok. cbn [la_of a_shape a_sizes a_units a_monos a_edge a_trap a_mdom a_rdom a_jmono].
+  split; [|split; [|split]].
+  - intros s Hin. apply in_app_iff in Hin. destruct Hin as [Hin|[<-|[]]]. specialize (Hs s Hin). lia. exact Hu.
+  - lia.
+  - intros m cd dir Hin. destruct (cfg_trust_dims c m cd dir Hc Hin) as (_ & _ & Hne & Hdir). split; assumption.
+  - intros p q []. Qed.
+
+Theorem assert_zero_iff_feasible c f : cfg_valid c ->
+  (assert_lattice (la_of c) f 0 = true <-> feasible_kernel c f).
+Proof. intros Hc. pose proof (la_of_ok c Hc) as Hok. pose proof Hc as (_ & _ & Hl & Hm & _).
+  rewrite (lattice_exact (la_of c) f 0 Hok ltac:(lra)). split.
+  - intros H. unfold feasible_kernel. split; [|split; [|split; [|split]]].
+    + intros d Hd. apply mono_dims_spec in Hd. destruct Hd as [Hdl Hne]. intros i Hv Hs.
+      assert (E : nth d (l_monos c) 0%Z = 1%Z).
+      { destruct (Hm (nth d (l_monos c) 0%Z) (nth_In _ _ Hdl)) as [E|E]; [congruence|exact E]. }
+      pose proof (H (IMono d i) (conj Hdl (conj E (conj Hv Hs)))) as G. cbn [slack] in G. lra.
+    + intros [[m cd] dir] Hin b i j Hv Hi Hj.
+      pose proof (H (IEdge (m, cd, dir) b i j) (conj Hin (conj Hv (conj Hi Hj)))) as G. cbn [slack] in G.
+      unfold tsign in G. destruct (0 <? dir)%Z; lra.
+    + intros [[m cd] dir] Hin b j Hv Hj. cbv zeta.
+      pose proof (H (ITrapL (m, cd, dir) b j) (conj Hin (conj Hv Hj))) as G1.
+      pose proof (H (ITrapR (m, cd, dir) b j) (conj Hin (conj Hv Hj))) as G2. cbn [slack] in G1, G2. cbv zeta in G2.
+      unfold tsign in G1, G2. change (a_shape (la_of c)) with (l_shape c) in G2. destruct (0 <? dir)%Z; split; lra.
+    + unfold lower_ok. destruct (l_min c) as [lo|] eqn:E; [|exact I]. intros i Hv.
+      assert (Hcv : covered (la_of c) (ILower i)) by (cbn [covered la_of a_min]; split; [rewrite E; discriminate|exact Hv]).
+      pose proof (H _ Hcv) as G. cbn [slack la_of a_min] in G. rewrite E in G. lra.
+    + unfold upper_ok. destruct (l_max c) as [hi|] eqn:E; [|exact I]. intros i Hv.
+      assert (Hcv : covered (la_of c) (IUpper i)) by (cbn [covered la_of a_max]; split; [rewrite E; discriminate|exact Hv]).
+      pose proof (H _ Hcv) as G. cbn [slack la_of a_max] in G. rewrite E in G. lra.
+  - intros (Hmo & Hed & Htp & Hlo & Hup) q Hq.
+    destruct q as [d x|t b i j|t b j|t b j|pq b i j|pq b i j|pq b i j|pq b i j|pq b i j|x|x]; cbn [covered la_of a_mdom a_rdom a_jmono] in Hq;
+      [| | | |destruct Hq as [[] _]|destruct Hq as [[] _]|destruct Hq as [[] _]|destruct Hq as [[] _]|destruct Hq as [[] _]| |].
+    + destruct Hq as (Hd & E & Hv & Hs). cbn [slack].
+      assert (Hin : In d (mono_dims (l_monos c))) by (apply mono_dims_spec; split; [exact Hd|cbn [la_of a_monos] in E; rewrite E; discriminate]).
+      pose proof (Hmo d Hin x Hv Hs). lra.
+    + destruct t as [[m cd] dir]. destruct Hq as (Hin & Hv & Hi & Hj). cbn [fst snd] in *.
+      pose proof (Hed _ Hin b i j Hv Hi Hj) as G. cbn [slack]. unfold tsign. destruct (0 <? dir)%Z; lra.
+    + destruct t as [[m cd] dir]. destruct Hq as (Hin & Hv & Hj). cbn [fst snd] in *.
+      pose proof (Htp _ Hin b j Hv Hj) as G. cbv zeta in G. cbn [slack]. unfold tsign. destruct (0 <? dir)%Z; lra.
+    + destruct t as [[m cd] dir]. destruct Hq as (Hin & Hv & Hj). cbn [fst snd] in *.
+      pose proof (Htp _ Hin b j Hv Hj) as G. cbv zeta in G. cbn [slack]. cbv zeta. change (a_shape (la_of c)) with (l_shape c).
+      unfold tsign. destruct (0 <? dir)%Z; lra.
+    + destruct Hq as [Hn Hv]. cbn [slack la_of a_min] in *. unfold lower_ok in Hlo. destruct (l_min c) as [lo|]; [|lra].
+      specialize (Hlo x Hv). lra.
+    + destruct Hq as [Hn Hv]. cbn [slack la_of a_max] in *. unfold upper_ok in Hup. destruct (l_max c) as [hi|]; [|lra].
+      specialize (Hup x Hv). lra. Qed.
+
+(* ... and therefore (eps >= 0 only relaxes) every C01-feasible kernel passes the assert *)
+Theorem assert_accepts_feasible c f eps : cfg_valid c -> feasible_kernel c f -> 0 <= eps ->
+  assert_lattice (la_of c) f eps = true.
+Proof. intros Hc Hf He. pose proof (la_of_ok c Hc) as Hok. apply lattice_complete; [assumption|assumption|].
+  intros q Hq. apply (assert_zero_iff_feasible c f Hc) in Hf. rewrite (lattice_exact (la_of c) f 0 Hok ltac:(lra)) in Hf.
+  specialize (Hf q Hq). lra. Qed.
+
+(* ------------------------------------------------------------------ *)
+(* Examples: the hypotheses of every implication are satisfiable        *)
+(* ------------------------------------------------------------------ *)
+(* 2x2 lattice, 2 units, dim 0 monotone, Edgeworth (0,1,+), trapezoid (0,1,+), monotonic dominance is impossible
+   with one monotone dim, joint monotonicity (0,1), bounds [0,4] *)
+Definition ex_la : la_cfg := mkLA [2%nat; 2%nat] 2 [1%Z; 0%Z] [(0%nat, 1%nat, 1%Z)] [(0%nat, 1%nat, 1%Z)] [] [] [(0%nat, 1%nat)] (Some 0) (Some 4).
+Definition ex_la2 : la_cfg := mkLA [2%nat; 3%nat] 1 [1%Z; 1%Z] [] [] [(0%nat, 1%nat)] [(0%nat, 1%nat)] [] None None.
+(* flat kernels [vertex][unit], row-major: vertices (0,0),(0,1),(1,0),(1,1) *)
+Definition ex_w_ok : list Q := [1; 1;  1; 1;  2; 2;  3; 3].
+Definition ex_w_bad : list Q := [1; 1;  1; 1;  2; 2;  3; 1].   (* unit 1: Edgeworth square violated by 1 *)
+Example ex_la_ok : la_ok ex_la.
+Proof. split; [|split; [|split]].
+  - intros s Hs; cbn in Hs; destruct Hs as [<-|[<-|[<-|[]]]]; lia.
+  - cbn. lia.
+  - intros m cd dir Hin; cbn in Hin; destruct Hin as [E|[E|[]]]; injection E as <- <- <-; (split; [discriminate|left; reflexivity]).
+  - intros p q Hin; cbn in Hin; destruct Hin as [E|[]]. injection E as <- <-. discriminate. Qed.
+Example ex_la2_ok : la_ok ex_la2.
+Proof. split; [|split; [|split]].
+  - intros s Hs; cbn in Hs; destruct Hs as [<-|[<-|[<-|[]]]]; lia.
+  - cbn. lia.
+  - intros m cd dir Hin; cbn in Hin; destruct Hin.
+  - intros p q Hin; cbn in Hin; destruct Hin as [E|[E|[]]]; injection E as <- <-; discriminate. Qed.
+Example ex_lattice_complete_hyps :
+  la_ok ex_la /\ 0 <= (1#100) /\ forall q, covered ex_la q -> - (1#100) <= slack ex_la (of_list (a_shape ex_la) ex_w_ok) q.
+Proof. split; [exact ex_la_ok|]. split; [lra|]. apply assert_lattice_inv. exact ex_la_ok. vm_compute. reflexivity. Qed.
+Example ex_lattice_sound_hyps :
+  la_ok ex_la /\ covered ex_la (IEdge (0%nat, 1%nat, 1%Z) [0%nat; 0%nat; 1%nat] 0 0) /\
+  slack ex_la (of_list (a_shape ex_la) ex_w_bad) (IEdge (0%nat, 1%nat, 1%Z) [0%nat; 0%nat; 1%nat] 0 0) < - (1#100) /\
+  assert_lattice_flat ex_la ex_w_bad (1#100) = false /\ assert_lattice_flat ex_la ex_w_ok (1#100) = true.
+Proof. split; [exact ex_la_ok|]. split.
+  - cbn. split; [left; reflexivity|]. split; [repeat constructor|]. split; lia.
+  - split; [vm_compute; reflexivity|]. split; vm_compute; reflexivity. Qed.
+Example ex_lattice_dominance :
+  assert_lattice_flat ex_la2 [0; 0; 1; 2; 3; 3] 0 = true /\      (* dominant dim 0 steeper and wider than dim 1 *)
+  assert_lattice_flat ex_la2 [0; 2; 4; 1; 3; 5] 0 = false.       (* weak dim steeper *)
+Proof. split; vm_compute; reflexivity. Qed.
+
+Definition ex_lat_cfg : lat_cfg := mkLat [2%nat; 2%nat] 1 [1%Z; 0%Z] [(0%nat, 1%nat, 1%Z)] [] (Some 0) None.
+Example ex_lat_cfg_valid : cfg_valid ex_lat_cfg.
+Proof. unfold cfg_valid, all_trusts. cbn [ex_lat_cfg l_sizes l_units l_monos l_edge l_trap l_min l_max app].
+  split. intros s [<-|[<-|[]]]; lia. split. lia. split. reflexivity. split.
+  intros m [<-|[<-|[]]]; auto. split.
+  intros t [<-|[]]. cbn. repeat split; auto; lia. split.
+  intros t1 t2 [<-|[]] [<-|[]]. cbn. discriminate. split.
+  intros t1 t2 [<-|[]] [<-|[]] _. reflexivity. exact I. Qed.
+Example ex_feasible_kernel : feasible_kernel ex_lat_cfg (of_list (l_shape ex_lat_cfg) [1; 1; 2; 3]).
+Proof. apply (assert_zero_iff_feasible ex_lat_cfg _ ex_lat_cfg_valid). vm_compute. reflexivity. Qed.
+
+(* PWL: 3 keypoints, 2 units, increasing, bounds [0, 2] clamped below *)
+Definition ex_pa : pwl_acfg := mkPA 2 1 (Some 0) (Some 2) true false.
+Example ex_pwl_complete_hyps : [[0; 0]; [1; (1#2)]; [2; 1]] <> [] /\ 0 <= (1#100) /\ pwl_feasible ex_pa [[0; 0]; [1; (1#2)]; [2; 1]] (1#100).
+Proof. split; [discriminate|]. split; [lra|]. apply pwl_exact; [discriminate|lra|]. vm_compute. reflexivity. Qed.
+Example ex_pwl_sound_hyps : (* unit 1 does not reach output_min although unit 0 does *)
+  pa_min ex_pa = Some 0 /\ pa_clamp_min ex_pa = true /\ (1 < pa_units ex_pa)%nat /\
+  (forall k, (k < 3)%nat -> 0 + (1#100) < out_at [[0; (1#2)]; [1; 1]; [2; 2]] k 1) /\
+  assert_pwl_outputs ex_pa [[0; (1#2)]; [1; 1]; [2; 2]] (1#100) = false.
+Proof. split; [reflexivity|]. split; [reflexivity|]. split; [cbn; lia|]. split.
+  - intros k Hk. destruct k as [|[|[|k]]]; try lia; vm_compute; reflexivity.
+  - vm_compute. reflexivity. Qed.
+Example ex_pwl_layer : (* kernel = bias row + heights; the outputs are the prefix sums *)
+  assert_pwl_layer (mkPL ex_pa false (Some [1; (5#2)])) [[0; 0]; [1; (1#2)]; [1; (1#2)]] (1#100) = false /\  (* missing output 5/2 > 2 *)
+  assert_pwl_layer (mkPL ex_pa false (Some [1; 2])) [[0; 0]; [1; (1#2)]; [1; (1#2)]] (1#100) = true.
+Proof. split; vm_compute; reflexivity. Qed.
+
+(* Linear: 3 inputs, 2 units; monotone +,-,0; 0 dominates... *)
+Definition ex_lin : lin_acfg := mkLinA 2 [1%Z; 1%Z; 0%Z] [(0%nat, 1%nat)] [(0%nat, 1%nat)] [Some 0; Some 0; None] [Some 2; Some 1; None] (Some 1%nat).
+Example ex_lin_complete_hyps : 0 <= (1#1000) /\ lin_feasible ex_lin [[(1#2); (1#2)]; [(1#4); (1#2)]; [(1#4); 0]] (1#1000).
+Proof. split; [lra|]. apply lin_exact; [lra|]. vm_compute. reflexivity. Qed.
+Example ex_lin_sound : (* unit 1 has L1 norm 3/2 *)
+  assert_linear ex_lin [[(1#2); (1#2)]; [(1#4); (1#2)]; [(1#4); (1#2)]] (1#1000) = false /\
+  ~ lin_feasible ex_lin [[(1#2); (1#2)]; [(1#4); (1#2)]; [(1#4); (1#2)]] (1#1000).
+Proof. assert (E : assert_linear ex_lin [[(1#2); (1#2)]; [(1#4); (1#2)]; [(1#4); (1#2)]] (1#1000) = false) by (vm_compute; reflexivity).
+  split; [exact E|]. intros H. apply (lin_exact ex_lin _ (1#1000) ltac:(lra)) in H. congruence. Qed.
+Example ex_l2_meaning : 0 <= (3#5) + (2#5) /\ ((3#5) + (2#5)) * ((3#5) + (2#5)) == 1 /\ 0 <= (1#10).
+Proof. split; [lra|]. split; [reflexivity|lra]. Qed.
+
+(* Categorical: defect D9's witness: pair (0,1) in order, pair (1,2) violated *)
+Definition ex_cat : cat_acfg := mkCatA 1 None None [(0%nat, 1%nat); (1%nat, 2%nat)].
+Example ex_cat_sound_hyps : [[0]; [2]; [1]] <> [] /\ (1 <= ca_units ex_cat)%nat /\ 0 <= (1#1000000) /\
+  In (1%nat, 2%nat) (ca_pairs ex_cat) /\ (0 < ca_units ex_cat)%nat /\ (1#1000000) < kat [[0]; [2]; [1]] 1 0 - kat [[0]; [2]; [1]] 2 0.
+Proof. split; [discriminate|]. split; [cbn; lia|]. split; [lra|]. split; [right; left; reflexivity|]. split; [cbn; lia|].
+  vm_compute. reflexivity. Qed.
+Example ex_cat_complete_hyps : cat_feasible ex_cat [[0]; [1]; [2]] (1#1000000).
+Proof. apply cat_exact; [discriminate|cbn; lia|lra|]. vm_compute. reflexivity. Qed.
+
+(* KFL: L = 2, 1 unit, 2 dims, 2 terms (scales +1, -1), both dims monotone, bounds [0, 2] *)
+Definition ex_kfl : kfl_acfg := mkKA 2 1 2 2 [1%Z; 1%Z] (Some 0) (Some 2).
+(* flat kernel [k][d][t] *)
+Example ex_kfl_complete_hyps : (1 <= k_L ex_kfl)%nat /\ 0 <= (1#100) /\
+  kfl_feasible ex_kfl [[1; - (1)]] (of_list (k_shape ex_kfl) [0; 1;  (1#2); 1;   1; 0;  1; (1#2)]) (1#100).
+Proof. split; [cbn; lia|]. split; [lra|]. apply kfl_exact; [cbn; lia|lra|]. vm_compute. reflexivity. Qed.
+Example ex_kfl_sound : (* term 1 has a negative scale, so its weights must DEcrease: increasing ones fail *)
+  assert_kfl_flat ex_kfl [[1; - (1)]] [0; 0;  (1#2); (1#2);   1; 1;  1; 1] (1#100) = false /\
+  (* product of the per-dimension maxima 2 * 1 > 1 *)
+  assert_kfl_flat ex_kfl [[1; - (1)]] [0; 1;  (1#2); 1;   2; 0;  1; (1#2)] (1#100) = false /\
+  (* scale outside +-(max - min)/2 = +-1, no eps *)
+  assert_kfl_flat ex_kfl [[1; - (201#200)]] [0; 1;  (1#2); 1;   1; 0;  1; (1#2)] (1#100) = false.
+Proof. repeat split; vm_compute; reflexivity. Qed.
